@@ -133,10 +133,32 @@ def Tlv.Fits : Tlv → Prop
   | .org oui st _ => oui.length = 3 ∧ st < 256
   | .simple t _ => t < 128
 
-/-- inside an IPv4 datagram (`l4` = directly the payload of an IPv4 header, where UDP/TCP/ICMP objects live) -/
+def Frame.isExt : Frame → Bool
+  | .ext _ _ _ => true
+  | _ => false
+
+/-- **Tiling.**  Every object's bytes are its header followed by exactly the bytes handed to the next layer; only `ipv4` (bytes
+beyond the total-length field) and `udp` (payload dropped when the length field is inconsistent) cut something off, and
+`llc`/`lldp` objects that gave up keep everything in `raw`.  For the phase-2 classes (`ext`) the statement is: the bytes handed
+to the next layer are a contiguous slice of the object's bytes. -/
+def Frame.Tiles : Frame → Prop
+  | .raw _ | .nil | .unparsed _ _ | .foreign _ _ | .lldp _ _ _ => True
+  | .eth _ r n => (∃ hd, hd.length = 14 ∧ r = hd ++ n.bytes) ∧ n.Tiles
+  | .vlan _ r n => (∃ hd, hd.length = 4 ∧ r = hd ++ n.bytes) ∧ n.Tiles
+  | .llc h p r n => (p = true → ∃ hd, hd.length = h.length ∧ r = hd ++ n.bytes) ∧ (p = false → n = .nil) ∧ n.Tiles
+  | .arp _ r n => (∃ hd, hd.length = 28 ∧ r = hd ++ n.bytes) ∧ n.Tiles
+  | .ipv4 h r n => (∃ hd cut, hd.length = h.hl * 4 ∧ r = hd ++ (n.bytes ++ cut)) ∧ n.Tiles
+  | .udp _ r n => (∃ hd cut, hd.length = 8 ∧ r = hd ++ (n.bytes ++ cut)) ∧ n.Tiles
+  | .tcp h r n => (∃ hd, hd.length = h.off * 4 ∧ r = hd ++ n.bytes) ∧ n.Tiles
+  | .icmp _ r n | .echo _ r n | .unreach _ r n | .timeEx _ r n => (∃ hd, hd.length = 4 ∧ r = hd ++ n.bytes) ∧ n.Tiles
+  | .ext _ r n => (∃ hd cut, r = hd ++ (n.bytes ++ cut)) ∧ n.Tiles
+
+/-- inside an IPv4 datagram (`l4` = directly the payload of an IPv4 header, where UDP/TCP/ICMP objects live).  Sub-chains below
+a phase-2 object carry the tiling only (`pack()` of those classes is not modelled). -/
 def GoodIn : Bool → Frame → Prop
   | _, .raw _ | _, .nil | _, .unparsed _ _ | _, .foreign _ _ => True
-  | l4, .udp h r n => l4 = true ∧ h.Fits ∧ n.isLeaf = true ∧ ∃ hd cut, hd.length = 8 ∧ r = hd ++ (n.bytes ++ cut)
+  | l4, .udp h r n => l4 = true ∧ h.Fits ∧ (n.isLeaf = true ∨ (n.isExt = true ∧ n.Tiles)) ∧
+      ∃ hd cut, hd.length = 8 ∧ r = hd ++ (n.bytes ++ cut)
   | l4, .tcp h r n => l4 = true ∧ h.Fits ∧ (∀ o ∈ h.opts, o.OK) ∧ 20 + (optsBytes h.opts).length ≤ h.off * 4 ∧ h.off < 16 ∧
       n.isLeaf = true ∧ ∃ hd, hd.length = h.off * 4 ∧ r = hd ++ n.bytes
   | l4, .icmp h r n => l4 = true ∧ h.Fits ∧ (∃ hd, hd.length = 4 ∧ r = hd ++ n.bytes) ∧ GoodIn false n
@@ -145,6 +167,7 @@ def GoodIn : Bool → Frame → Prop
   | _, .timeEx h r n => h.Fits ∧ (∃ hd, hd.length = 4 ∧ r = hd ++ n.bytes) ∧ GoodIn false n
   | _, .ipv4 h r n => h.Fits ∧ h.iplen < 65536 ∧
       (∃ hd cut, hd.length = h.hl * 4 ∧ r = hd ++ (n.bytes ++ cut) ∧ h.hl * 4 + n.bytes.length ≤ h.iplen) ∧ GoodIn true n
+  | _, .ext x r n => (Frame.ext x r n).Tiles
   | _, .eth _ _ _ | _, .vlan _ _ _ | _, .llc _ _ _ _ | _, .arp _ _ _ | _, .lldp _ _ _ => False
 
 /-- at frame level -/
@@ -156,7 +179,11 @@ def Good : Frame → Prop
   | .arp h r n => h.Fits ∧ n.isLeaf = true ∧ ∃ hd, hd.length = 28 ∧ r = hd ++ n.bytes
   | .lldp ts _ _ => ∀ t ∈ ts, t.Fits
   | .ipv4 h r n => GoodIn false (.ipv4 h r n)
+  | .ext x r n => (Frame.ext x r n).Tiles
   | .udp _ _ _ | .tcp _ _ _ | .icmp _ _ _ | .echo _ _ _ | .unreach _ _ _ | .timeEx _ _ _ => False
+
+/-- result of a phase-2 constructor: an object that gave up (a leaf) or a phase-2 object whose sub-chain is tiled -/
+def SpecX (f : Frame) : Prop := f.Tiles ∧ (f.isLeaf = true ∨ f.isExt = true)
 
 /-- what the constructor of class `k` establishes -/
 def Spec : K → Frame → Prop
@@ -164,16 +191,85 @@ def Spec : K → Frame → Prop
   | .echo | .unreach | .timeEx => GoodIn false
   | .ipv4 => fun f => GoodIn false f ∧ Good f
   | .eth | .vlan | .llc | .arp | .lldp => Good
+  | .mpls | .eapol | .eap | .vxlan | .rip | .dns | .ipv6 | .echo6 | .unreach6 | .gre | .igmp | .icmp6 _ _ => SpecX
 
-/-- the nested constructor calls succeed on inputs at least 4 bytes shorter than `n` -/
+/-- outcome of a constructor call: it returns an object for exactly the bytes it was given that satisfies `S`, or one of the
+registered known findings raises -/
+def Out (S : Frame → Prop) (b : Bytes) (r : P Frame) : Prop :=
+  (∃ f, r = .ok f ∧ f.bytes = b ∧ S f) ∨ (∃ s, r = .error (.known s))
+
+def OutP (Q : Frame → Prop) (r : P Frame) : Prop :=
+  (∃ f, r = .ok f ∧ Q f) ∨ (∃ s, r = .error (.known s))
+
+/-- the nested constructor calls behave on inputs at least 4 bytes shorter than `n` -/
 def NextSpec (next : K → Bytes → P Frame) (n : Nat) : Prop :=
-  ∀ k b, b.length + 4 ≤ n → ∃ f, next k b = .ok f ∧ f.bytes = b ∧ Spec k f
+  ∀ k b, b.length + 4 ≤ n → Out (Spec k) b (next k b)
 
 theorem goodIn_leaf (l4 : Bool) (f : Frame) (h : f.isLeaf = true) : GoodIn l4 f := by
   cases f <;> simp_all [Frame.isLeaf, GoodIn]
 
 theorem good_leaf (f : Frame) (h : f.isLeaf = true) : Good f := by
   cases f <;> simp_all [Frame.isLeaf, Good]
+
+theorem tiles_leaf (f : Frame) (h : f.isLeaf = true) : f.Tiles := by
+  cases f <;> simp_all [Frame.isLeaf, Frame.Tiles]
+
+theorem goodIn_tiles : ∀ (f : Frame) (l4 : Bool), GoodIn l4 f → f.Tiles := by
+  intro f
+  induction f with
+  | raw _ | nil | unparsed _ _ | foreign _ _ | lldp _ _ _ => intros; trivial
+  | eth _ _ _ _ | vlan _ _ _ _ | llc _ _ _ _ _ | arp _ _ _ _ => intro l4 h; simp [GoodIn] at h
+  | ext x r n ih => intro l4 g; exact g
+  | ipv4 h r n ih => intro l4 g; obtain ⟨_, _, ⟨hd, cut, h1, h2, _⟩, g'⟩ := g; exact ⟨⟨hd, cut, h1, h2⟩, ih _ g'⟩
+  | udp h r n ih =>
+    intro l4 g; obtain ⟨_, _, hl, hd, cut, h1, h2⟩ := g
+    exact ⟨⟨hd, cut, h1, h2⟩, hl.elim (tiles_leaf n) (fun h => h.2)⟩
+  | tcp h r n ih => intro l4 g; obtain ⟨_, _, _, _, _, hl, hd, h1, h2⟩ := g; exact ⟨⟨hd, h1, h2⟩, tiles_leaf n hl⟩
+  | icmp h r n ih => intro l4 g; obtain ⟨_, _, t, g'⟩ := g; exact ⟨t, ih _ g'⟩
+  | echo h r n ih => intro l4 g; obtain ⟨_, hl, t⟩ := g; exact ⟨t, tiles_leaf n hl⟩
+  | unreach h r n ih => intro l4 g; obtain ⟨_, t, g'⟩ := g; exact ⟨t, ih _ g'⟩
+  | timeEx h r n ih => intro l4 g; obtain ⟨_, t, g'⟩ := g; exact ⟨t, ih _ g'⟩
+
+theorem good_tiles : ∀ (f : Frame), Good f → f.Tiles := by
+  intro f
+  induction f with
+  | raw _ | nil | unparsed _ _ | foreign _ _ | lldp _ _ _ => intros; trivial
+  | udp _ _ _ _ | tcp _ _ _ _ | icmp _ _ _ _ | echo _ _ _ _ | unreach _ _ _ _ | timeEx _ _ _ _ => intro h; simp [Good] at h
+  | ext x r n ih => intro g; exact g
+  | eth h r n ih => intro g; obtain ⟨_, t, g'⟩ := g; exact ⟨t, ih g'⟩
+  | vlan h r n ih => intro g; obtain ⟨_, t, g'⟩ := g; exact ⟨t, ih g'⟩
+  | llc h p r n ih => intro g; obtain ⟨a, b, g'⟩ := g; exact ⟨fun hp => (a hp).2, b, ih g'⟩
+  | arp h r n ih => intro g; obtain ⟨_, hl, t⟩ := g; exact ⟨t, tiles_leaf n hl⟩
+  | ipv4 h r n ih => intro g; exact goodIn_tiles _ false g
+
+theorem specX_good (f : Frame) (h : SpecX f) : Good f := by
+  obtain ⟨ht, hl | he⟩ := h
+  · exact good_leaf f hl
+  · cases f <;> simp [Frame.isExt] at he; exact ht
+
+theorem specX_goodIn (l4 : Bool) (f : Frame) (h : SpecX f) : GoodIn l4 f := by
+  obtain ⟨ht, hl | he⟩ := h
+  · exact goodIn_leaf l4 f hl
+  · cases f <;> simp [Frame.isExt] at he; exact ht
+
+theorem specX_leaf (f : Frame) (h : f.isLeaf = true) : SpecX f := ⟨tiles_leaf f h, .inl h⟩
+
+/-- any slice of `raw` sits between a prefix and a suffix of `raw` -/
+theorem slice_tiles (raw : Bytes) (a b : Nat) : ∃ hd cut, raw = hd ++ (sl raw a b ++ cut) := by
+  by_cases h : a ≤ b
+  · exact ⟨raw.take a, raw.drop b, split3 raw a b h⟩
+  · refine ⟨[], raw, ?_⟩
+    have : sl raw a b = [] := by
+      apply List.eq_nil_of_length_eq_zero
+      have := sl_length_le raw a b
+      omega
+    simp [this]
+
+theorem drop_tiles (raw : Bytes) (a : Nat) : ∃ hd cut, raw = hd ++ (raw.drop a ++ cut) :=
+  ⟨raw.take a, [], by simpa using split2 raw a⟩
+
+theorem out_ok {S : Frame → Prop} {b : Bytes} (f : Frame) (hb : f.bytes = b) (hs : S f) : Out S b (.ok f) :=
+  .inl ⟨f, rfl, hb, hs⟩
 
 /-! ## one lemma per class -/
 
@@ -187,26 +283,41 @@ theorem eth_shape (b : Bytes) (h : b.length = 14) :
 
 theorem parseNext_spec (next : K → Bytes → P Frame) (t : Nat) (rest : Bytes) (allow : Bool) (n : Nat)
     (hn : NextSpec next n) (hl : rest.length + 4 ≤ n) :
-    ∃ f, parseNext next t rest allow = .ok f ∧ f.bytes = rest ∧ Good f := by
+    Out Good rest (parseNext Cfg.repaired next t rest allow) := by
+  have hx : ∀ k, (Spec k = SpecX) → Out Good rest (next k rest) := by
+    intro k hk
+    rcases hn k rest hl with ⟨f, h1, h2, h3⟩ | ⟨s, hs⟩
+    · exact .inl ⟨f, h1, h2, specX_good f (hk ▸ h3)⟩
+    · exact .inr ⟨s, hs⟩
+  have hg : ∀ k, (Spec k = Good) → Out Good rest (next k rest) := by
+    intro k hk
+    rcases hn k rest hl with ⟨f, h1, h2, h3⟩ | ⟨s, hs⟩
+    · exact .inl ⟨f, h1, h2, hk ▸ h3⟩
+    · exact .inr ⟨s, hs⟩
   unfold parseNext
+  simp only [Cfg.repaired, if_true]
   repeat' split
   all_goals first
-    | exact ⟨_, rfl, rfl, trivial⟩
-    | (obtain ⟨f, h1, h2, h3⟩ := hn _ rest hl; exact ⟨f, h1, h2, h3⟩)
-    | (obtain ⟨f, h1, h2, h3⟩ := hn _ rest hl; exact ⟨f, h1, h2, h3.2⟩)
+    | exact .inl ⟨_, rfl, rfl, trivial⟩
+    | exact hg _ rfl
+    | exact hx _ rfl
+    | (rcases hn .ipv4 rest hl with ⟨f, h1, h2, h3⟩ | ⟨s, hs⟩
+       · exact .inl ⟨f, h1, h2, h3.2⟩
+       · exact .inr ⟨s, hs⟩)
 
 theorem ethParse_spec (next : K → Bytes → P Frame) (raw : Bytes) (hn : NextSpec next raw.length) :
-    ∃ f, ethParse next raw = .ok f ∧ f.bytes = raw ∧ Good f := by
+    Out Good raw (ethParse Cfg.repaired next raw) := by
   unfold ethParse
   split
-  · exact ⟨_, rfl, rfl, trivial⟩
+  · exact .inl ⟨_, rfl, rfl, trivial⟩
   · rename_i hlen
     obtain ⟨dst, src, t, hu, _, hd, hs, ht⟩ := eth_shape (raw.take 14) (by simp [List.length_take]; omega)
-    obtain ⟨f, hf, hb, hg⟩ := parseNext_spec next t (raw.drop 14) true raw.length hn (by simp [List.length_drop]; omega)
-    simp only [hu, hf]
-    refine ⟨_, rfl, rfl, ⟨hd, hs, ht⟩, ⟨raw.take 14, by simp [List.length_take]; omega, ?_⟩, hg⟩
-    rw [hb]; exact split2 raw 14
-
+    rcases parseNext_spec next t (raw.drop 14) true raw.length hn (by simp [List.length_drop]; omega) with
+      ⟨f, hf, hb, hg⟩ | ⟨e, he⟩
+    · simp only [hu, hf]
+      refine .inl ⟨_, rfl, rfl, ⟨hd, hs, ht⟩, ⟨raw.take 14, by simp [List.length_take]; omega, ?_⟩, hg⟩
+      rw [hb]; exact split2 raw 14
+    · simp only [hu, he]; exact .inr ⟨e, rfl⟩
 
 theorem nums2_shape (L : Layout) (w1 w2 : Nat) (hL : L = [.uint w1, .uint w2]) (b : Bytes) (h : b.length = w1 + w2) :
     ∃ x y, unpackE L b = .ok [.num x, .num y] ∧ unpack L b = some [.num x, .num y] ∧ x < 256 ^ w1 ∧ y < 256 ^ w2 := by
@@ -227,19 +338,21 @@ theorem take_len (raw : Bytes) (n : Nat) (h : n ≤ raw.length) : (raw.take n).l
   simp [List.length_take]; omega
 
 theorem vlanParse_spec (next : K → Bytes → P Frame) (raw : Bytes) (hn : NextSpec next raw.length) :
-    ∃ f, vlanParse next raw = .ok f ∧ f.bytes = raw ∧ Good f := by
+    Out Good raw (vlanParse Cfg.repaired next raw) := by
   unfold vlanParse
   split
-  · exact ⟨_, rfl, rfl, trivial⟩
+  · exact .inl ⟨_, rfl, rfl, trivial⟩
   · rename_i hlen
     obtain ⟨x, y, hu, _, hx, hy⟩ := nums2_shape vlanL 2 2 rfl (raw.take 4) (take_len raw 4 (by omega))
-    obtain ⟨f, hf, hb, hg⟩ := parseNext_spec next y (raw.drop 4) true raw.length hn (by simp [List.length_drop]; omega)
-    simp only [hu, hf]
-    have hx' : x < 65536 := by simpa using hx
-    have hy' : y < 65536 := by simpa using hy
-    refine ⟨_, rfl, rfl, ⟨by show x / 8192 < 8; omega, by show x / 4096 % 2 < 2; omega, by show x % 4096 < 4096; omega, hy'⟩,
-      ⟨raw.take 4, take_len raw 4 (by omega), ?_⟩, hg⟩
-    rw [hb]; exact split2 raw 4
+    rcases parseNext_spec next y (raw.drop 4) true raw.length hn (by simp [List.length_drop]; omega) with
+      ⟨f, hf, hb, hg⟩ | ⟨e, he⟩
+    · simp only [hu, hf]
+      have hx' : x < 65536 := by simpa using hx
+      have hy' : y < 65536 := by simpa using hy
+      refine .inl ⟨_, rfl, rfl, ⟨by show x / 8192 < 8; omega, by show x / 4096 % 2 < 2; omega, by show x % 4096 < 4096; omega, hy'⟩,
+        ⟨raw.take 4, take_len raw 4 (by omega), ?_⟩, hg⟩
+      rw [hb]; exact split2 raw 4
+    · simp only [hu, he]; exact .inr ⟨e, rfl⟩
 
 theorem arp_shape (b : Bytes) (h : b.length = 28) :
     ∃ hwtype prototype hwlen protolen opcode hwsrc psrc hwdst pdst,
@@ -286,37 +399,40 @@ theorem echoParse_spec (raw : Bytes) : ∃ f, echoParse raw = .ok f ∧ f.bytes 
     exact ⟨_, rfl, rfl, ⟨by simpa using hx, by simpa using hy⟩, rfl, raw.take 4, take_len raw 4 (by omega), split2 raw 4⟩
 
 theorem quoteDispatch_spec (next : K → Bytes → P Frame) (raw : Bytes) (hn : NextSpec next raw.length) (h4 : 4 ≤ raw.length) :
-    ∃ f, quoteDispatch next raw = .ok f ∧ f.bytes = raw.drop 4 ∧ GoodIn false f := by
+    Out (GoodIn false) (raw.drop 4) (quoteDispatch next raw) := by
   unfold quoteDispatch
   split
-  · obtain ⟨f, h1, h2, h3⟩ := hn .ipv4 (raw.drop 4) (by simp [List.length_drop]; omega)
-    exact ⟨f, h1, h2, h3.1⟩
-  · exact ⟨_, rfl, rfl, trivial⟩
+  · rcases hn .ipv4 (raw.drop 4) (by simp [List.length_drop]; omega) with ⟨f, h1, h2, h3⟩ | ⟨s, hs⟩
+    · exact .inl ⟨f, h1, h2, h3.1⟩
+    · exact .inr ⟨s, hs⟩
+  · exact .inl ⟨_, rfl, rfl, trivial⟩
 
 theorem unreachParse_spec (next : K → Bytes → P Frame) (raw : Bytes) (hn : NextSpec next raw.length) :
-    ∃ f, unreachParse next raw = .ok f ∧ f.bytes = raw ∧ GoodIn false f := by
+    Out (GoodIn false) raw (unreachParse next raw) := by
   unfold unreachParse
   split
-  · exact ⟨_, rfl, rfl, trivial⟩
+  · exact .inl ⟨_, rfl, rfl, trivial⟩
   · rename_i hlen
     obtain ⟨x, y, hu, _, hx, hy⟩ := nums2_shape unreachL 2 2 rfl (raw.take 4) (take_len raw 4 (by omega))
-    obtain ⟨f, hf, hb, hg⟩ := quoteDispatch_spec next raw hn (by omega)
-    simp only [hu, hf]
-    refine ⟨_, rfl, rfl, ⟨by simpa using hx, by simpa using hy⟩, ⟨raw.take 4, take_len raw 4 (by omega), ?_⟩, hg⟩
-    rw [hb]; exact split2 raw 4
+    rcases quoteDispatch_spec next raw hn (by omega) with ⟨f, hf, hb, hg⟩ | ⟨e, he⟩
+    · simp only [hu, hf]
+      refine .inl ⟨_, rfl, rfl, ⟨by simpa using hx, by simpa using hy⟩, ⟨raw.take 4, take_len raw 4 (by omega), ?_⟩, hg⟩
+      rw [hb]; exact split2 raw 4
+    · simp only [hu, he]; exact .inr ⟨e, rfl⟩
 
 theorem timeExParse_spec (next : K → Bytes → P Frame) (raw : Bytes) (hn : NextSpec next raw.length) :
-    ∃ f, timeExParse next raw = .ok f ∧ f.bytes = raw ∧ GoodIn false f := by
+    Out (GoodIn false) raw (timeExParse next raw) := by
   unfold timeExParse
   split
-  · exact ⟨_, rfl, rfl, trivial⟩
+  · exact .inl ⟨_, rfl, rfl, trivial⟩
   · rename_i hlen
     obtain ⟨x, hu, _, hx⟩ := num1_shape 4 (raw.take 4) (take_len raw 4 (by omega))
-    obtain ⟨f, hf, hb, hg⟩ := quoteDispatch_spec next raw hn (by omega)
     have hu' : unpackE timeExL (raw.take 4) = .ok [.num x] := hu
-    simp only [hu', hf]
-    refine ⟨_, rfl, rfl, ⟨by simpa using hx⟩, ⟨raw.take 4, take_len raw 4 (by omega), ?_⟩, hg⟩
-    rw [hb]; exact split2 raw 4
+    rcases quoteDispatch_spec next raw hn (by omega) with ⟨f, hf, hb, hg⟩ | ⟨e, he⟩
+    · simp only [hu', hf]
+      refine .inl ⟨_, rfl, rfl, ⟨by simpa using hx⟩, ⟨raw.take 4, take_len raw 4 (by omega), ?_⟩, hg⟩
+      rw [hb]; exact split2 raw 4
+    · simp only [hu', he]; exact .inr ⟨e, rfl⟩
 
 theorem icmp_shape (b : Bytes) (h : b.length = 4) :
     ∃ t c s, unpackE icmpL b = .ok [.num t, .num c, .num s] ∧ unpack icmpL b = some [.num t, .num c, .num s] ∧
@@ -327,23 +443,24 @@ theorem icmp_shape (b : Bytes) (h : b.length = 4) :
   exact ⟨a1, a2, a3, hu, hu', by simpa using h1, by simpa using h2, by simpa using h3⟩
 
 theorem icmpParse_spec (next : K → Bytes → P Frame) (raw : Bytes) (hn : NextSpec next raw.length) :
-    ∃ f, icmpParse next raw = .ok f ∧ f.bytes = raw ∧ GoodIn true f := by
+    Out (GoodIn true) raw (icmpParse next raw) := by
   unfold icmpParse
   split
-  · exact ⟨_, rfl, rfl, trivial⟩
+  · exact .inl ⟨_, rfl, rfl, trivial⟩
   · rename_i hlen
     obtain ⟨t, c, s, hu, _, ht, hc, hs⟩ := icmp_shape (raw.take 4) (take_len raw 4 (by omega))
     have hl : (raw.drop 4).length + 4 ≤ raw.length := by simp [List.length_drop]; omega
-    have key : ∃ f, (if t = 8 ∨ t = 0 then next .echo (raw.drop 4) else if t = 3 then next .unreach (raw.drop 4)
-        else if t = 11 then next .timeEx (raw.drop 4) else pure (.raw (raw.drop 4))) = .ok f ∧ f.bytes = raw.drop 4 ∧ GoodIn false f := by
+    have key : Out (GoodIn false) (raw.drop 4) (if t = 8 ∨ t = 0 then next .echo (raw.drop 4) else if t = 3 then next .unreach (raw.drop 4)
+        else if t = 11 then next .timeEx (raw.drop 4) else pure (.raw (raw.drop 4))) := by
       repeat' split
       all_goals first
-        | exact ⟨_, rfl, rfl, trivial⟩
+        | exact .inl ⟨_, rfl, rfl, trivial⟩
         | exact hn _ _ hl
-    obtain ⟨f, hf, hb, hg⟩ := key
-    simp only [hu, hf]
-    refine ⟨_, rfl, rfl, rfl, ⟨ht, hc⟩, ⟨raw.take 4, take_len raw 4 (by omega), ?_⟩, hg⟩
-    rw [hb]; exact split2 raw 4
+    rcases key with ⟨f, hf, hb, hg⟩ | ⟨e, he⟩
+    · simp only [hu, hf]
+      refine .inl ⟨_, rfl, rfl, rfl, ⟨ht, hc⟩, ⟨raw.take 4, take_len raw 4 (by omega), ?_⟩, hg⟩
+      rw [hb]; exact split2 raw 4
+    · simp only [hu, he]; exact .inr ⟨e, rfl⟩
 
 theorem udp_shape (b : Bytes) (h : b.length = 8) :
     ∃ sp dp l c, unpackE udpL b = .ok [.num sp, .num dp, .num l, .num c] ∧ unpack udpL b = some [.num sp, .num dp, .num l, .num c] ∧
@@ -353,20 +470,59 @@ theorem udp_shape (b : Bytes) (h : b.length = 8) :
   obtain ⟨a1, _, rfl, h1, a2, _, rfl, h2, a3, _, rfl, h3, a4, _, rfl, h4, rfl⟩ := hf
   exact ⟨a1, a2, a3, a4, hu, hu', by simpa using h1, by simpa using h2, by simpa using h3, by simpa using h4⟩
 
-theorem udpParse_spec (raw : Bytes) : ∃ f, udpParse raw = .ok f ∧ f.bytes = raw ∧ GoodIn true f := by
+theorem udpPayload_spec (next : K → Bytes → P Frame) (cls : String) (k : K) (hk : Spec k = SpecX) (body : Bytes) (n : Nat)
+    (hn : NextSpec next n) (hl : body.length + 4 ≤ n) :
+    Out (fun f => f.isLeaf = true ∨ (f.isExt = true ∧ f.Tiles)) body (udpPayload Cfg.repaired next cls k body) := by
+  unfold udpPayload
+  simp only [Cfg.repaired, if_true]
+  rcases hn k body hl with ⟨f, h1, h2, h3⟩ | ⟨s, hs⟩
+  · rw [hk] at h3
+    exact .inl ⟨f, h1, h2, h3.2.elim .inl (fun he => .inr ⟨he, h3.1⟩)⟩
+  · exact .inr ⟨s, hs⟩
+
+theorem udpParse_spec (next : K → Bytes → P Frame) (raw : Bytes) (hn : NextSpec next raw.length) :
+    Out (GoodIn true) raw (udpParse Cfg.repaired next raw) := by
   unfold udpParse
   dsimp only
   split
-  · exact ⟨_, rfl, rfl, trivial⟩
+  · exact .inl ⟨_, rfl, rfl, trivial⟩
   · rename_i hlen
     obtain ⟨sp, dp, l, c, hu, _, h1, h2, h3, h4⟩ := udp_shape (raw.take 8) (take_len raw 8 (by omega))
     simp only [hu]
     have tile : raw = raw.take 8 ++ (raw.drop 8 ++ []) := by simpa using split2 raw 8
     have tile0 : raw = raw.take 8 ++ ([] ++ raw.drop 8) := by simpa using split2 raw 8
-    repeat' split
-    all_goals first
-      | exact ⟨_, rfl, rfl, rfl, ⟨h1, h2⟩, rfl, raw.take 8, [], take_len raw 8 (by omega), tile⟩
-      | exact ⟨_, rfl, rfl, rfl, ⟨h1, h2⟩, rfl, raw.take 8, raw.drop 8, take_len raw 8 (by omega), tile0⟩
+    have hl : (raw.drop 8).length + 4 ≤ raw.length := by simp [List.length_drop]; omega
+    split
+    · exact .inl ⟨_, rfl, rfl, rfl, ⟨h1, h2⟩, .inl rfl, raw.take 8, raw.drop 8, take_len raw 8 (by omega), tile0⟩
+    · have fin : ∀ (r : P Frame), Out (fun f => f.isLeaf = true ∨ (f.isExt = true ∧ f.Tiles)) (raw.drop 8) r →
+          Out (GoodIn true) raw (match r with
+            | .ok n => pure (.udp ⟨sp, dp, l, c⟩ raw n)
+            | .error e => .error e) := by
+        intro r hr
+        rcases hr with ⟨f, hf, hb, hg⟩ | ⟨e, he⟩
+        · subst hf
+          refine .inl ⟨_, rfl, rfl, rfl, ⟨h1, h2⟩, hg, raw.take 8, [], take_len raw 8 (by omega), ?_⟩
+          rw [hb]; exact tile
+        · subst he; exact .inr ⟨e, rfl⟩
+      by_cases c1 : dp = 67 ∨ dp = 68
+      · rw [if_pos c1]; exact fin _ (.inl ⟨_, rfl, rfl, .inl rfl⟩)
+      rw [if_neg c1]
+      by_cases c2 : dp = 53 ∨ sp = 53
+      · rw [if_pos c2]; exact fin _ (udpPayload_spec next "dns" .dns rfl _ _ hn hl)
+      rw [if_neg c2]
+      by_cases c3 : dp = 5353 ∨ sp = 5353
+      · rw [if_pos c3]; exact fin _ (udpPayload_spec next "dns" .dns rfl _ _ hn hl)
+      rw [if_neg c3]
+      by_cases c4 : dp = 520 ∨ sp = 520
+      · rw [if_pos c4]; exact fin _ (udpPayload_spec next "rip" .rip rfl _ _ hn hl)
+      rw [if_neg c4]
+      by_cases c5 : dp = 4789 ∨ sp = 4789
+      · rw [if_pos c5]; exact fin _ (udpPayload_spec next "vxlan" .vxlan rfl _ _ hn hl)
+      rw [if_neg c5]
+      by_cases c6 : raw.length < l
+      · rw [if_pos c6]
+        exact .inl ⟨_, rfl, rfl, rfl, ⟨h1, h2⟩, .inl rfl, raw.take 8, raw.drop 8, take_len raw 8 (by omega), tile0⟩
+      · rw [if_neg c6]; exact fin _ (.inl ⟨_, rfl, rfl, .inl rfl⟩)
 
 theorem ipv4_shape (b : Bytes) (h : b.length = 20) :
     ∃ vhl tos iplen id ff ttl proto csum src dst,
@@ -384,78 +540,83 @@ theorem ipv4_shape (b : Bytes) (h : b.length = 20) :
 
 theorem ipv4Dispatch_spec (next : K → Bytes → P Frame) (frag proto : Nat) (body : Bytes) (short : Bool) (n : Nat)
     (hn : NextSpec next n) (hl : body.length + 4 ≤ n) :
-    ∃ f, ipv4Dispatch next frag proto body short = .ok f ∧ (f = .nil ∨ f.bytes = body) ∧ GoodIn true f := by
+    OutP (fun f => (f = .nil ∨ f.bytes = body) ∧ GoodIn true f) (ipv4Dispatch Cfg.repaired next frag proto body short) := by
   unfold ipv4Dispatch
   split
-  · exact ⟨_, rfl, .inr rfl, trivial⟩
+  · exact .inl ⟨_, rfl, .inr rfl, trivial⟩
   split
   · rename_i hp
-    have key : ∃ nx, next (if proto = 17 then K.udp else if proto = 6 then K.tcp else K.icmp) body = .ok nx ∧
-        nx.bytes = body ∧ GoodIn true nx := by
-      by_cases h17 : proto = 17
-      · rw [if_pos h17]; exact hn .udp body hl
-      · rw [if_neg h17]
-        by_cases h6 : proto = 6
-        · rw [if_pos h6]; exact hn .tcp body hl
-        · rw [if_neg h6]; exact hn .icmp body hl
-    obtain ⟨nx, h1, h2, h3⟩ := key
-    simp only [h1]
-    by_cases hu : isUnparsed nx = true
-    · rw [if_pos hu]; exact ⟨_, rfl, .inr rfl, trivial⟩
-    · rw [if_neg hu]; exact ⟨_, rfl, .inr h2, h3⟩
+    have key : Out (GoodIn true) body (next (if proto = 17 then K.udp else if proto = 6 then K.tcp else if proto = 1 then K.icmp
+        else if proto = 2 then K.igmp else K.gre) body) := by
+      have hx : ∀ k, (Spec k = SpecX) → Out (GoodIn true) body (next k body) := by
+        intro k hk
+        rcases hn k body hl with ⟨f, h1, h2, h3⟩ | ⟨s, hs⟩
+        · exact .inl ⟨f, h1, h2, specX_goodIn true f (hk ▸ h3)⟩
+        · exact .inr ⟨s, hs⟩
+      repeat' split
+      all_goals first
+        | exact hn _ body hl
+        | exact hx _ rfl
+    rcases key with ⟨nx, h1, h2, h3⟩ | ⟨e, he⟩
+    · simp only [h1]
+      by_cases hu : isUnparsed nx = true
+      · rw [if_pos hu]; exact .inl ⟨_, rfl, .inr rfl, trivial⟩
+      · rw [if_neg hu]; exact .inl ⟨_, rfl, .inr h2, h3⟩
+    · simp only [he]; exact .inr ⟨e, rfl⟩
   repeat' split
   all_goals first
-    | exact ⟨_, rfl, .inr rfl, trivial⟩
-    | exact ⟨_, rfl, .inl rfl, trivial⟩
+    | exact .inl ⟨_, rfl, .inr rfl, trivial⟩
+    | exact .inl ⟨_, rfl, .inl rfl, trivial⟩
 
 theorem ipv4Parse_spec (next : K → Bytes → P Frame) (raw : Bytes) (hn : NextSpec next raw.length) :
-    ∃ f, ipv4Parse next raw = .ok f ∧ f.bytes = raw ∧ GoodIn false f ∧ Good f := by
+    Out (fun f => GoodIn false f ∧ Good f) raw (ipv4Parse Cfg.repaired next raw) := by
   unfold ipv4Parse
   dsimp only
   split
-  · exact ⟨_, rfl, rfl, trivial, trivial⟩
+  · exact .inl ⟨_, rfl, rfl, trivial, trivial⟩
   · rename_i hlen
     obtain ⟨vhl, tos, iplen, id, ff, ttl, proto, csum, src, dst, hu, _, h1, h2, h3, h4, h5, h6, h7, h8, h9, h10⟩ :=
       ipv4_shape (raw.take 20) (take_len raw 20 (by omega))
     simp only [hu]
     by_cases c1 : vhl / 16 ≠ 4
-    · rw [if_pos c1]; exact ⟨_, rfl, rfl, trivial, trivial⟩
+    · rw [if_pos c1]; exact .inl ⟨_, rfl, rfl, trivial, trivial⟩
     rw [if_neg c1]
     by_cases c2 : vhl % 16 < 5
-    · rw [if_pos c2]; exact ⟨_, rfl, rfl, trivial, trivial⟩
+    · rw [if_pos c2]; exact .inl ⟨_, rfl, rfl, trivial, trivial⟩
     rw [if_neg c2]
     by_cases c3 : iplen < 20
-    · rw [if_pos c3]; exact ⟨_, rfl, rfl, trivial, trivial⟩
+    · rw [if_pos c3]; exact .inl ⟨_, rfl, rfl, trivial, trivial⟩
     rw [if_neg c3]
     by_cases c4 : vhl % 16 * 4 > iplen
-    · rw [if_pos c4]; exact ⟨_, rfl, rfl, trivial, trivial⟩
+    · rw [if_pos c4]; exact .inl ⟨_, rfl, rfl, trivial, trivial⟩
     rw [if_neg c4]
     by_cases c5 : vhl % 16 * 4 > raw.length
-    · rw [if_pos c5]; exact ⟨_, rfl, rfl, trivial, trivial⟩
+    · rw [if_pos c5]; exact .inl ⟨_, rfl, rfl, trivial, trivial⟩
     rw [if_neg c5]
     generalize hlen' : (if iplen > raw.length then raw.length else iplen) = length
     have hlen1 : vhl % 16 * 4 ≤ length := by subst hlen'; split <;> omega
     have hlen2 : length ≤ raw.length := by subst hlen'; split <;> omega
     have hlen3 : length ≤ iplen := by subst hlen'; split <;> omega
     have hbl : (sl raw (vhl % 16 * 4) length).length = length - vhl % 16 * 4 := sl_length raw _ _ hlen2
-    obtain ⟨f, hf, hb, hg⟩ := ipv4Dispatch_spec next (ff % 8192) proto (sl raw (vhl % 16 * 4) length)
-      (decide (raw.length < iplen)) raw.length hn (by rw [hbl]; omega)
-    simp only [hf]
-    have hfits : IPv4.Fits ⟨vhl / 16, vhl % 16, tos, iplen, id, ff / 8192, ff % 8192, ttl, proto, csum, src, dst,
-        sl raw 20 (vhl % 16 * 4)⟩ :=
-      ⟨by show vhl / 16 = 4; omega, by show 5 ≤ vhl % 16; omega, by show vhl % 16 < 16; omega, h2, h4,
-       by show ff / 8192 < 8; omega, by show ff % 8192 < 8192; omega, h6, h7, h9, h10,
-       by show (sl raw 20 (vhl % 16 * 4)).length + 20 = 4 * (vhl % 16); rw [sl_length raw _ _ (by omega)]; omega⟩
-    have hnode : GoodIn false (.ipv4 ⟨vhl / 16, vhl % 16, tos, iplen, id, ff / 8192, ff % 8192, ttl, proto, csum, src, dst,
-        sl raw 20 (vhl % 16 * 4)⟩ raw f) := by
-      refine ⟨hfits, h3, ?_, hg⟩
-      rcases hb with rfl | hb
-      · exact ⟨raw.take (vhl % 16 * 4), raw.drop (vhl % 16 * 4), take_len raw _ (by omega), by simpa [Frame.bytes] using split2 raw _,
-          by simp [Frame.bytes]; omega⟩
-      · refine ⟨raw.take (vhl % 16 * 4), raw.drop length, take_len raw _ (by omega), ?_, ?_⟩
-        · rw [hb]; exact split3 raw _ _ hlen1
-        · rw [hb, hbl]; show vhl % 16 * 4 + (length - vhl % 16 * 4) ≤ iplen; omega
-    exact ⟨_, rfl, rfl, hnode, hnode⟩
+    rcases ipv4Dispatch_spec next (ff % 8192) proto (sl raw (vhl % 16 * 4) length)
+      (decide (raw.length < iplen)) raw.length hn (by rw [hbl]; omega) with ⟨f, hf, hb, hg⟩ | ⟨e, he⟩
+    · simp only [hf]
+      have hfits : IPv4.Fits ⟨vhl / 16, vhl % 16, tos, iplen, id, ff / 8192, ff % 8192, ttl, proto, csum, src, dst,
+          sl raw 20 (vhl % 16 * 4)⟩ :=
+        ⟨by show vhl / 16 = 4; omega, by show 5 ≤ vhl % 16; omega, by show vhl % 16 < 16; omega, h2, h4,
+         by show ff / 8192 < 8; omega, by show ff % 8192 < 8192; omega, h6, h7, h9, h10,
+         by show (sl raw 20 (vhl % 16 * 4)).length + 20 = 4 * (vhl % 16); rw [sl_length raw _ _ (by omega)]; omega⟩
+      have hnode : GoodIn false (.ipv4 ⟨vhl / 16, vhl % 16, tos, iplen, id, ff / 8192, ff % 8192, ttl, proto, csum, src, dst,
+          sl raw 20 (vhl % 16 * 4)⟩ raw f) := by
+        refine ⟨hfits, h3, ?_, hg⟩
+        rcases hb with rfl | hb
+        · exact ⟨raw.take (vhl % 16 * 4), raw.drop (vhl % 16 * 4), take_len raw _ (by omega), by simpa [Frame.bytes] using split2 raw _,
+            by simp [Frame.bytes]; omega⟩
+        · refine ⟨raw.take (vhl % 16 * 4), raw.drop length, take_len raw _ (by omega), ?_, ?_⟩
+          · rw [hb]; exact split3 raw _ _ hlen1
+          · rw [hb, hbl]; show vhl % 16 * 4 + (length - vhl % 16 * 4) ≤ iplen; omega
+      exact .inl ⟨_, rfl, rfl, hnode, hnode⟩
+    · simp only [he]; exact .inr ⟨e, rfl⟩
 
 theorem llc_shape (b : Bytes) (h : b.length = 3) :
     ∃ d s c, unpackE llcL b = .ok [.num d, .num s, .num c] ∧ d < 256 ∧ s < 256 ∧ c < 256 := by
@@ -471,12 +632,12 @@ theorem ordE_one (b : Bytes) (h : b.length = 1) : ∃ x, ordE b = .ok x ∧ x < 
 theorem llcTail_spec (next : K → Bytes → P Frame) (raw : Bytes) (d s c len : Nat) (hn : NextSpec next raw.length)
     (hlen : len = 3 ∨ len = 4) (hraw : len ≤ raw.length) (hd : d < 256) (hs : s < 256) (hc : c < 65536)
     (hc3 : len = 3 → c < 256) :
-    ∃ f, llcTail next raw d s c len = .ok f ∧ f.bytes = raw ∧ Good f := by
+    Out Good raw (llcTail Cfg.repaired next raw d s c len) := by
   unfold llcTail
   dsimp only
   split
   · split
-    · exact ⟨_, rfl, rfl, by simp, by simp, trivial⟩
+    · exact .inl ⟨_, rfl, rfl, by simp, by simp, trivial⟩
     · rename_i hsnap hl5
       obtain ⟨t, hu, _, ht⟩ := num1_shape 2 (sl raw (len + 3) (len + 5)) (by rw [sl_length raw _ _ (by omega)]; omega)
       have hu' : unpackE u16L (sl raw (len + 3) (len + 5)) = .ok [.num t] := hu
@@ -487,27 +648,28 @@ theorem llcTail_spec (next : K → Bytes → P Frame) (raw : Bytes) (d s c len :
         ⟨d, s, c, rfl, rfl, rfl, hd, hs, hc, by intro h; apply hc3; show len = 3; rcases h with h | h <;> simp at h <;> omega,
           .inr ⟨_, rfl, houi, ht', by show len + 5 = 8 ∨ len + 5 = 9; omega⟩⟩
       split
-      · obtain ⟨f, hf, hb, hg⟩ := parseNext_spec next t (raw.drop (len + 5)) false raw.length hn
-          (by simp [List.length_drop]; omega)
-        simp only [hf]
-        refine ⟨_, rfl, rfl, fun _ => ⟨hfits, raw.take (len + 5), take_len raw _ (by omega), ?_⟩, by simp, hg⟩
-        rw [hb]; exact split2 raw _
-      · exact ⟨_, rfl, rfl, fun _ => ⟨hfits, raw.take (len + 5), take_len raw _ (by omega), split2 raw _⟩, by simp, trivial⟩
-  · refine ⟨_, rfl, rfl, fun _ => ⟨⟨d, s, c, rfl, rfl, rfl, hd, hs, hc, ?_, .inl ⟨rfl, hlen⟩⟩, raw.take len, take_len raw _ hraw, split2 raw _⟩,
+      · rcases parseNext_spec next t (raw.drop (len + 5)) false raw.length hn
+          (by simp [List.length_drop]; omega) with ⟨f, hf, hb, hg⟩ | ⟨e, he⟩
+        · simp only [hf]
+          refine .inl ⟨_, rfl, rfl, fun _ => ⟨hfits, raw.take (len + 5), take_len raw _ (by omega), ?_⟩, by simp, hg⟩
+          rw [hb]; exact split2 raw _
+        · simp only [he]; exact .inr ⟨e, rfl⟩
+      · exact .inl ⟨_, rfl, rfl, fun _ => ⟨hfits, raw.take (len + 5), take_len raw _ (by omega), split2 raw _⟩, by simp, trivial⟩
+  · refine .inl ⟨_, rfl, rfl, fun _ => ⟨⟨d, s, c, rfl, rfl, rfl, hd, hs, hc, ?_, .inl ⟨rfl, hlen⟩⟩, raw.take len, take_len raw _ hraw, split2 raw _⟩,
       by simp, trivial⟩
     intro h; apply hc3; show len = 3; rcases h with h | h <;> simp at h <;> omega
 
 theorem llcParse_spec (next : K → Bytes → P Frame) (raw : Bytes) (hn : NextSpec next raw.length) :
-    ∃ f, llcParse next raw = .ok f ∧ f.bytes = raw ∧ Good f := by
+    Out Good raw (llcParse Cfg.repaired next raw) := by
   unfold llcParse
   split
-  · exact ⟨_, rfl, rfl, by simp, by simp, trivial⟩
+  · exact .inl ⟨_, rfl, rfl, by simp, by simp, trivial⟩
   · rename_i hlen
     obtain ⟨d, s, c, hu, hd, hs, hc⟩ := llc_shape (raw.take 3) (take_len raw 3 (by omega))
     simp only [hu]
     split
     · split
-      · exact ⟨_, rfl, rfl, by simp, by simp, trivial⟩
+      · exact .inl ⟨_, rfl, rfl, by simp, by simp, trivial⟩
       · obtain ⟨b, hb, hb'⟩ := ordE_one (sl raw 3 4) (by rw [sl_length raw _ _ (by omega)])
         simp only [hb]
         have : c ||| (b <<< 8) < 65536 := by
@@ -516,6 +678,7 @@ theorem llcParse_spec (next : K → Bytes → P Frame) (raw : Bytes) (hn : NextS
           exact Nat.or_lt_two_pow h1 h2
         exact llcTail_spec next raw d s _ 4 hn (.inr rfl) (by omega) hd hs this (by omega)
     · exact llcTail_spec next raw d s c 3 hn (.inl rfl) (by omega) hd hs (by omega) (fun _ => hc)
+
 /-! ### TCP options -/
 
 theorem beDec_lt_le (b : Bytes) (w : Nat) (h : b.length ≤ w) : beDec b < 256 ^ w :=
@@ -1005,748 +1168,158 @@ theorem lldpParse_spec (raw : Bytes) : ∃ f, lldpParse Cfg.repaired raw = .ok f
         simp only [hl]
         exact ⟨_, rfl, rfl, hts⟩
 
-/-- every constructor call of the repaired code returns, and its result satisfies the invariant, as soon as the nesting budget
-covers one activation per four input bytes (every parser that calls a nested constructor consumed at least four bytes) -/
-theorem parseD_spec : ∀ (d : Nat) (k : K) (raw : Bytes), raw.length / 4 + 1 ≤ d →
-    ∃ f, parseD Cfg.repaired d k raw = .ok f ∧ f.bytes = raw ∧ Spec k f := by
-  intro d
-  induction d with
-  | zero => intro k raw h; omega
-  | succ d ih =>
-    intro k raw h
-    have hn : NextSpec (parseD Cfg.repaired d) raw.length := by
-      intro k' b hb; exact ih k' b (by omega)
-    cases k <;> simp only [parseD, Spec]
-    · exact ethParse_spec _ raw hn
-    · exact vlanParse_spec _ raw hn
-    · exact llcParse_spec _ raw hn
-    · exact arpParse_spec raw
-    · exact ipv4Parse_spec _ raw hn
-    · exact udpParse_spec raw
-    · exact tcpParse_spec raw
-    · exact icmpParse_spec _ raw hn
-    · exact echoParse_spec raw
-    · exact unreachParse_spec _ raw hn
-    · exact timeExParse_spec _ raw hn
-    · exact lldpParse_spec raw
 
-/-! ## the input is tiled -/
+/-! ## phase 2: one lemma per added class -/
 
-/-- Every object's bytes are its header followed by exactly the bytes handed to the next layer; only `ipv4` (bytes beyond the
-total-length field) and `udp` (payload dropped when the length field is inconsistent) cut something off, and `llc`/`lldp`
-objects that gave up keep everything in `raw`. -/
-def Frame.Tiles : Frame → Prop
-  | .raw _ | .nil | .unparsed _ _ | .foreign _ _ | .lldp _ _ _ => True
-  | .eth _ r n => (∃ hd, hd.length = 14 ∧ r = hd ++ n.bytes) ∧ n.Tiles
-  | .vlan _ r n => (∃ hd, hd.length = 4 ∧ r = hd ++ n.bytes) ∧ n.Tiles
-  | .llc h p r n => (p = true → ∃ hd, hd.length = h.length ∧ r = hd ++ n.bytes) ∧ (p = false → n = .nil) ∧ n.Tiles
-  | .arp _ r n => (∃ hd, hd.length = 28 ∧ r = hd ++ n.bytes) ∧ n.Tiles
-  | .ipv4 h r n => (∃ hd cut, hd.length = h.hl * 4 ∧ r = hd ++ (n.bytes ++ cut)) ∧ n.Tiles
-  | .udp _ r n => (∃ hd cut, hd.length = 8 ∧ r = hd ++ (n.bytes ++ cut)) ∧ n.Tiles
-  | .tcp h r n => (∃ hd, hd.length = h.off * 4 ∧ r = hd ++ n.bytes) ∧ n.Tiles
-  | .icmp _ r n | .echo _ r n | .unreach _ r n | .timeEx _ r n => (∃ hd, hd.length = 4 ∧ r = hd ++ n.bytes) ∧ n.Tiles
+theorem spec_tiles (k : K) (f : Frame) (h : Spec k f) : f.Tiles := by
+  cases k <;> simp only [Spec] at h
+  all_goals first
+    | exact good_tiles f h
+    | exact goodIn_tiles f _ h
+    | exact good_tiles f h.2
+    | exact h.1
 
-theorem tiles_leaf (f : Frame) (h : f.isLeaf = true) : f.Tiles := by
-  cases f <;> simp_all [Frame.isLeaf, Frame.Tiles]
+theorem ext_specX (x : Ext) (r : Bytes) (n : Frame) (ht : n.Tiles) (htile : ∃ hd cut, r = hd ++ (n.bytes ++ cut)) :
+    SpecX (.ext x r n) := ⟨⟨htile, ht⟩, .inr rfl⟩
 
-theorem goodIn_tiles : ∀ (f : Frame) (l4 : Bool), GoodIn l4 f → f.Tiles := by
-  intro f
-  induction f with
-  | raw _ | nil | unparsed _ _ | foreign _ _ | lldp _ _ _ => intros; trivial
-  | eth _ _ _ _ | vlan _ _ _ _ | llc _ _ _ _ _ | arp _ _ _ _ => intro l4 h; simp [GoodIn] at h
-  | ipv4 h r n ih => intro l4 g; obtain ⟨_, _, ⟨hd, cut, h1, h2, _⟩, g'⟩ := g; exact ⟨⟨hd, cut, h1, h2⟩, ih _ g'⟩
-  | udp h r n ih => intro l4 g; obtain ⟨_, _, hl, hd, cut, h1, h2⟩ := g; exact ⟨⟨hd, cut, h1, h2⟩, tiles_leaf n hl⟩
-  | tcp h r n ih => intro l4 g; obtain ⟨_, _, _, _, _, hl, hd, h1, h2⟩ := g; exact ⟨⟨hd, h1, h2⟩, tiles_leaf n hl⟩
-  | icmp h r n ih => intro l4 g; obtain ⟨_, _, t, g'⟩ := g; exact ⟨t, ih _ g'⟩
-  | echo h r n ih => intro l4 g; obtain ⟨_, hl, t⟩ := g; exact ⟨t, tiles_leaf n hl⟩
-  | unreach h r n ih => intro l4 g; obtain ⟨_, t, g'⟩ := g; exact ⟨t, ih _ g'⟩
-  | timeEx h r n ih => intro l4 g; obtain ⟨_, t, g'⟩ := g; exact ⟨t, ih _ g'⟩
+theorem nil_tiles (r : Bytes) : ∃ hd cut, r = hd ++ (Frame.nil.bytes ++ cut) := ⟨[], r, by simp [Frame.bytes]⟩
 
-theorem good_tiles : ∀ (f : Frame), Good f → f.Tiles := by
-  intro f
-  induction f with
-  | raw _ | nil | unparsed _ _ | foreign _ _ | lldp _ _ _ => intros; trivial
-  | udp _ _ _ _ | tcp _ _ _ _ | icmp _ _ _ _ | echo _ _ _ _ | unreach _ _ _ _ | timeEx _ _ _ _ => intro h; simp [Good] at h
-  | eth h r n ih => intro g; obtain ⟨_, t, g'⟩ := g; exact ⟨t, ih g'⟩
-  | vlan h r n ih => intro g; obtain ⟨_, t, g'⟩ := g; exact ⟨t, ih g'⟩
-  | llc h p r n ih => intro g; obtain ⟨a, b, g'⟩ := g; exact ⟨fun hp => (a hp).2, b, ih g'⟩
-  | arp h r n ih => intro g; obtain ⟨_, hl, t⟩ := g; exact ⟨t, tiles_leaf n hl⟩
-  | ipv4 h r n ih => intro g; exact goodIn_tiles _ false g
+theorem idx_ok (b : Bytes) (i : Nat) (h : i < b.length) : ∃ v, idx b i = .ok v ∧ v < 256 := by
+  unfold idx
+  rw [List.getElem?_eq_getElem h]
+  exact ⟨_, rfl, (b[i]).toNat_lt⟩
 
-/-! ## printing -/
+theorem sl_length_sub (raw : Bytes) (a b : Nat) : (sl raw a b).length ≤ raw.length - a := by
+  simp [sl, List.length_drop, List.length_take]; omega
 
-theorem tlvsStr_ok (ts : List Tlv) : tlvsStr Cfg.repaired ts = .ok () := by
-  induction ts with
-  | nil => rfl
-  | cons t r ih =>
-    have : tlvStr Cfg.repaired t = .ok () := by cases t <;> simp [tlvStr, Cfg.repaired, pure, Except.pure]
-    simp [tlvsStr, this, ih, bind, Except.bind]
+theorem nums3_shape (L : Layout) (w1 w2 w3 : Nat) (hL : L = [.uint w1, .uint w2, .uint w3]) (b : Bytes) (h : b.length = w1 + w2 + w3) :
+    ∃ x y z, unpackE L b = .ok [.num x, .num y, .num z] := by
+  subst hL
+  obtain ⟨vs, hu, _, hf⟩ := unpackE_total [.uint w1, .uint w2, .uint w3] b (by simp [size, h]; omega)
+  simp only [fits_uint_iff, fits_nil_iff] at hf
+  obtain ⟨x, _, rfl, _, y, _, rfl, _, z, _, rfl, _, rfl⟩ := hf
+  exact ⟨x, y, z, hu⟩
 
-theorem llcStr_ok (h : Llc) : llcStr Cfg.repaired h = .ok () := by
-  unfold llcStr
-  repeat' split
-  all_goals first | rfl | (rename_i hc; simp [Cfg.repaired] at hc)
-
-/-- `str()` / `dump()` of any object chain of the repaired code is defined -/
-theorem printF_ok (f : Frame) : printF Cfg.repaired f = .ok () := by
-  induction f with
-  | raw _ | nil | unparsed _ _ | foreign _ _ => rfl
-  | lldp ts _ _ => exact tlvsStr_ok ts
-  | llc h p r n ih => simp [printF, llcStr_ok, ih, bind, Except.bind]
-  | eth _ _ _ ih | vlan _ _ _ ih | arp _ _ _ ih | ipv4 _ _ _ ih | udp _ _ _ ih | tcp _ _ _ ih | icmp _ _ _ ih
-  | echo _ _ _ ih | unreach _ _ _ ih | timeEx _ _ _ ih => simpa [printF] using ih
-
-/-! ## re-serialising a parse result -/
-
-theorem pk_ok (L : Layout) (vs : List Val) (hf : fits L vs) : ∃ b, pk L vs = .ok b ∧ b.length = size L := by
-  obtain ⟨bs, he, _, hl⟩ := decode_encode L vs [] hf
-  exact ⟨bs, pk_of_encode he, hl⟩
-
-theorem pack_leaf (f : Frame) (ctx : Option IPCtx) (hl : f.isLeaf = true) (hf : f.hasForeign = false) :
-    packF ctx f = .ok f.bytes := by
-  cases f <;> simp_all [Frame.isLeaf, Frame.hasForeign, packF, Frame.bytes, pure, Except.pure]
-
-theorem optsPadded_le (os : List TcpOpt) (k : Nat) (h : 20 + (optsBytes os).length ≤ k * 4) :
-    20 + (optsPadded os).length ≤ k * 4 := by
-  unfold optsPadded
+theorem mplsParse_spec (next : K → Bytes → P Frame) (raw : Bytes) (hn : NextSpec next raw.length) :
+    Out SpecX raw (mplsParse next raw) := by
+  unfold mplsParse
   split
-  · simp; omega
-  · exact h
+  · exact .inl ⟨_, rfl, rfl, specX_leaf _ rfl⟩
+  · rename_i hlen
+    obtain ⟨x, y, z, hu⟩ := nums3_shape mplsL 2 1 1 rfl (raw.take 4) (take_len raw 4 (by omega))
+    simp only [hu]
+    have hraw : SpecX (.ext (.mpls ⟨x * 16 + y / 16, y % 16 / 2, y % 2, z⟩) raw (.raw (raw.drop 4))) :=
+      ext_specX _ _ _ trivial (drop_tiles raw 4)
+    split
+    · rcases hn .mpls (raw.drop 4) (by simp [List.length_drop]; omega) with ⟨f, hf, hb, hg⟩ | ⟨e, he⟩
+      · simp only [hf]
+        exact .inl ⟨_, rfl, rfl, ext_specX _ _ _ hg.1 (by rw [hb]; exact drop_tiles raw 4)⟩
+      · simp only [he]; exact .inl ⟨_, rfl, rfl, hraw⟩
+    · exact .inl ⟨_, rfl, rfl, hraw⟩
 
-theorem packF_ipv4 (ctx : Option IPCtx) (h : IPv4) (r : Bytes) (n : Frame) (rest : Bytes)
-    (hrest : packF (some ⟨h.src, h.dst, h.proto⟩) n = .ok rest) (hf : h.Fits) (hn : h.hl * 4 + rest.length < 65536) :
-    packF ctx (.ipv4 h r n) = .ok (ipv4Bytes h rest.length ++ rest) := by
-  simp [packF, hrest, ipv4Hdr_ok h rest.length hf hn, bind, Except.bind, pure, Except.pure]
+theorem eapParse_spec (raw : Bytes) : Out SpecX raw (eapParse raw) := by
+  unfold eapParse
+  split
+  · exact .inl ⟨_, rfl, rfl, specX_leaf _ rfl⟩
+  · rename_i hlen
+    obtain ⟨x, y, z, hu⟩ := nums3_shape eapolL 1 1 2 rfl (raw.take 4) (take_len raw 4 (by omega))
+    simp only [hu]
+    split
+    · exact .inl ⟨_, rfl, rfl, ext_specX _ _ _ trivial (nil_tiles raw)⟩
+    · rename_i hshort
+      split
+      · obtain ⟨t, ht, _, _⟩ := num1_shape 1 (sl raw 4 5) (by rw [sl_length raw _ _ (by omega)])
+        have ht' : unpackE u8L (sl raw 4 5) = .ok [.num t] := ht
+        simp only [ht']
+        exact .inl ⟨_, rfl, rfl, ext_specX _ _ _ trivial (nil_tiles raw)⟩
+      · exact .inl ⟨_, rfl, rfl, ext_specX _ _ _ trivial (nil_tiles raw)⟩
 
-/-- inside an IPv4 datagram: `pack()` succeeds and does not produce more bytes than were parsed -/
-theorem packIn : ∀ (f : Frame) (l4 : Bool) (ctx : Option IPCtx), GoodIn l4 f → f.bytes.length < 65536 → f.hasForeign = false →
-    (l4 = true → ∃ c, ctx = some c ∧ c.Fits) → ∃ out, packF ctx f = .ok out ∧ out.length ≤ f.bytes.length := by
-  intro f
-  induction f with
-  | raw b => intro _ _ _ _ _ _; exact ⟨b, rfl, Nat.le_refl _⟩
-  | nil => intro _ _ _ _ _ _; exact ⟨[], rfl, Nat.le_refl _⟩
-  | unparsed c r => intro _ _ _ _ _ _; exact ⟨r, rfl, Nat.le_refl _⟩
-  | foreign c r => intro _ _ _ _ hf _; simp [Frame.hasForeign] at hf
-  | eth _ _ _ _ | vlan _ _ _ _ | llc _ _ _ _ _ | arp _ _ _ _ | lldp _ _ _ => intro l4 _ g; simp [GoodIn] at g
-  | udp h r n ih =>
-    intro l4 ctx g hlen hfo hctx
-    obtain ⟨hl4, hfit, hleaf, hd, cut, h1, h2⟩ := g
-    obtain ⟨c, rfl, hc⟩ := hctx hl4
-    have hrest := pack_leaf n none hleaf (by simpa [Frame.hasForeign] using hfo)
-    have hrl : n.bytes.length + 8 ≤ r.length := by rw [h2]; simp; omega
-    have hlen' : r.length < 65536 := hlen
-    have := udpHdr_ok c h n.bytes hc hfit (by omega)
-    refine ⟨udpBytes c h n.bytes ++ n.bytes, ?_, ?_⟩
-    · simp [packF, hrest, this, bind, Except.bind, pure, Except.pure]
-    · show _ ≤ r.length; simp [udpBytes_length]; omega
-  | tcp h r n ih =>
-    intro l4 ctx g hlen hfo hctx
-    obtain ⟨hl4, hfit, hok, hopt, hoff, hleaf, hd, h1, h2⟩ := g
-    obtain ⟨c, rfl, hc⟩ := hctx hl4
-    have hrest := pack_leaf n none hleaf (by simpa [Frame.hasForeign] using hfo)
-    have hrl : h.off * 4 + n.bytes.length = r.length := by rw [h2]; simp; omega
-    have hlen' : r.length < 65536 := hlen
-    have hpad := optsPadded_le h.opts h.off hopt
-    have := tcpHdr_ok c h (optsPadded h.opts) n.bytes hc hfit (tcpOptsPadded_ok h.opts hok) (by omega) (by omega)
-    refine ⟨tcpBytes c h (optsPadded h.opts) n.bytes ++ n.bytes, ?_, ?_⟩
-    · simp [packF, hrest, this, bind, Except.bind, pure, Except.pure]
-    · show _ ≤ r.length; simp [tcpBytes_length]; omega
-  | icmp h r n ih =>
-    intro l4 ctx g hlen hfo hctx
-    obtain ⟨_, hfit, ⟨hd, h1, h2⟩, g'⟩ := g
-    have hrl : 4 + n.bytes.length = r.length := by rw [h2]; simp; omega
-    have hlen' : r.length < 65536 := hlen
-    obtain ⟨rest, hrest, hle⟩ := ih false none g' (by omega) (by simpa [Frame.hasForeign] using hfo) (by simp)
-    have := icmpHdr_ok h rest hfit (by omega)
-    refine ⟨icmpBytes h rest ++ rest, ?_, ?_⟩
-    · simp [packF, hrest, this, bind, Except.bind, pure, Except.pure]
-    · show _ ≤ r.length; simp [icmpBytes, icmpPre, be16]; omega
-  | echo h r n ih =>
-    intro l4 ctx g hlen hfo hctx
-    obtain ⟨hfit, hleaf, hd, h1, h2⟩ := g
-    have hrest := pack_leaf n none hleaf (by simpa [Frame.hasForeign] using hfo)
-    have hrl : 4 + n.bytes.length = r.length := by rw [h2]; simp; omega
-    refine ⟨echoBytes h ++ n.bytes, ?_, ?_⟩
-    · simp [packF, hrest, echoHdr_ok h hfit, bind, Except.bind, pure, Except.pure]
-    · show _ ≤ r.length; simp [echoBytes, be16]; omega
-  | unreach h r n ih =>
-    intro l4 ctx g hlen hfo hctx
-    obtain ⟨hfit, ⟨hd, h1, h2⟩, g'⟩ := g
-    have hrl : 4 + n.bytes.length = r.length := by rw [h2]; simp; omega
-    have hlen' : r.length < 65536 := hlen
-    obtain ⟨rest, hrest, hle⟩ := ih false none g' (by omega) (by simpa [Frame.hasForeign] using hfo) (by simp)
-    refine ⟨unreachBytes h ++ rest, ?_, ?_⟩
-    · simp [packF, hrest, unreachHdr_ok h hfit, bind, Except.bind, pure, Except.pure]
-    · show _ ≤ r.length; simp [unreachBytes, be16]; omega
-  | timeEx h r n ih =>
-    intro l4 ctx g hlen hfo hctx
-    obtain ⟨hfit, ⟨hd, h1, h2⟩, g'⟩ := g
-    have hrl : 4 + n.bytes.length = r.length := by rw [h2]; simp; omega
-    have hlen' : r.length < 65536 := hlen
-    obtain ⟨rest, hrest, hle⟩ := ih false none g' (by omega) (by simpa [Frame.hasForeign] using hfo) (by simp)
-    refine ⟨timeExBytes h ++ rest, ?_, ?_⟩
-    · simp [packF, hrest, timeExHdr_ok h hfit, bind, Except.bind, pure, Except.pure]
-    · show _ ≤ r.length; simp [timeExBytes]; omega
-  | ipv4 h r n ih =>
-    intro l4 ctx g _ hfo _
-    obtain ⟨hfit, hip, ⟨hd, cut, h1, h2, h3⟩, g'⟩ := g
-    obtain ⟨rest, hrest, hle⟩ := ih true (some ⟨h.src, h.dst, h.proto⟩) g' (by omega)
-      (by simpa [Frame.hasForeign] using hfo) (fun _ => ⟨_, rfl, ⟨hfit.src, hfit.dst, hfit.proto⟩⟩)
-    have hrl : h.hl * 4 + n.bytes.length ≤ r.length := by rw [h2]; simp; omega
-    refine ⟨_, packF_ipv4 ctx h r n rest hrest hfit (by omega), ?_⟩
-    show _ ≤ r.length; simp [ipv4Bytes_length h _ hfit]; omega
+theorem eapolParse_spec (next : K → Bytes → P Frame) (raw : Bytes) (hn : NextSpec next raw.length) :
+    Out SpecX raw (eapolParse next raw) := by
+  unfold eapolParse
+  split
+  · exact .inl ⟨_, rfl, rfl, specX_leaf _ rfl⟩
+  · rename_i hlen
+    obtain ⟨x, y, z, hu⟩ := nums3_shape eapolL 1 1 2 rfl (raw.take 4) (take_len raw 4 (by omega))
+    simp only [hu]
+    split
+    · rcases hn .eap (raw.drop 4) (by simp [List.length_drop]; omega) with ⟨f, hf, hb, hg⟩ | ⟨e, he⟩
+      · simp only [hf]
+        exact .inl ⟨_, rfl, rfl, ext_specX _ _ _ hg.1 (by rw [hb]; exact drop_tiles raw 4)⟩
+      · simp only [he]; exact .inr ⟨e, rfl⟩
+    · exact .inl ⟨_, rfl, rfl, ext_specX _ _ _ trivial (nil_tiles raw)⟩
 
-theorem llcHdr_ok (h : Llc) (hf : LlcFits h) : ∃ b, llcHdr h = .ok b := by
-  obtain ⟨d, s, c, hd, hs, hc, d1, s1, c1, c2, hou⟩ := hf
-  obtain ⟨a, ha, _⟩ := pk_ok [.uint 1, .uint 1] [.num d, .num s] (by simp [fits]; exact ⟨d1, s1⟩)
-  unfold llcHdr
-  simp only [hd, hs, hc]
-  by_cases h38 : h.length = 3 ∨ h.length = 8
-  · obtain ⟨cb, hcb, _⟩ := pk_ok [.uint 1] [.num c] (by simp [fits]; exact c2 h38)
-    rcases hou with ⟨ho, _⟩ | ⟨o, ho, _, het, _⟩
-    · simp [ho, ha, hcb, h38, bind, Except.bind, pure, Except.pure]
-    · obtain ⟨t, ht, _⟩ := pk_ok [.uint 2] [.num h.ethType] (by simp [fits]; exact het)
-      simp [ho, ha, hcb, ht, h38, bind, Except.bind, pure, Except.pure]
-  · obtain ⟨cb, hcb, _⟩ := pk_ok [.uint 1, .uint 1] [.num (c % 256), .num ((c / 256) % 256)] (by simp [fits]; omega)
-    rcases hou with ⟨ho, _⟩ | ⟨o, ho, _, het, _⟩
-    · simp [ho, ha, hcb, h38, bind, Except.bind, pure, Except.pure]
-    · obtain ⟨t, ht, _⟩ := pk_ok [.uint 2] [.num h.ethType] (by simp [fits]; exact het)
-      simp [ho, ha, hcb, ht, h38, bind, Except.bind, pure, Except.pure]
+theorem vxlan_shape (b : Bytes) (h : b.length = 8) :
+    ∃ fl r v1 v2 v3 z, unpackE vxlanL b = .ok [.num fl, .raw r, .num v1, .num v2, .num v3, .num z] := by
+  obtain ⟨vs, hu, _, hf⟩ := unpackE_total vxlanL b (by rw [h]; rfl)
+  simp only [vxlanL, fits_uint_iff, fits_blob_iff, fits_nil_iff] at hf
+  obtain ⟨a1, _, rfl, _, a2, _, rfl, _, a3, _, rfl, _, a4, _, rfl, _, a5, _, rfl, _, a6, _, rfl, _, rfl⟩ := hf
+  exact ⟨a1, a2, a3, a4, a5, a6, hu⟩
 
-theorem Tlv.type_lt (t : Tlv) (h : t.Fits) : t.type < 128 := by
-  cases t <;> simp_all [Tlv.type, Tlv.Fits]
+theorem vxlanParse_spec (next : K → Bytes → P Frame) (raw : Bytes) (hn : NextSpec next raw.length) :
+    Out SpecX raw (vxlanParse next raw) := by
+  unfold vxlanParse
+  split
+  · exact .inl ⟨_, rfl, rfl, specX_leaf _ rfl⟩
+  · rename_i hlen
+    obtain ⟨fl, r, v1, v2, v3, z, hu⟩ := vxlan_shape (raw.take 8) (take_len raw 8 (by omega))
+    simp only [hu]
+    rcases hn .eth (raw.drop 8) (by simp [List.length_drop]; omega) with ⟨f, hf, hb, hg⟩ | ⟨e, he⟩
+    · simp only [hf]
+      exact .inl ⟨_, rfl, rfl, ext_specX _ _ _ (good_tiles f hg) (by rw [hb]; exact drop_tiles raw 8)⟩
+    · simp only [he]; exact .inr ⟨e, rfl⟩
 
-theorem tlvData_ok (t : Tlv) (h : t.Fits) : ∃ d, tlvData t = .ok d := by
-  cases t with
-  | chassis st id =>
-    obtain ⟨a, ha, _⟩ := pk_ok [.uint 1] [.num st] (by simp [fits]; exact h)
-    exact ⟨a ++ id, by simp [tlvData, ha, bind, Except.bind, pure, Except.pure]⟩
-  | port st id =>
-    obtain ⟨a, ha, _⟩ := pk_ok [.uint 1] [.num st] (by simp [fits]; exact h)
-    exact ⟨a ++ id, by simp [tlvData, ha, bind, Except.bind, pure, Except.pure]⟩
-  | ttl v =>
-    obtain ⟨a, ha, _⟩ := pk_ok [.uint 2] [.num v] (by simp [fits]; exact h)
-    exact ⟨a, by simp [tlvData, ha]⟩
-  | endT => exact ⟨[], rfl⟩
-  | caps c e =>
-    obtain ⟨a, ha, _⟩ := pk_ok [.uint 2, .uint 2] [.num c, .num e] (by simp [fits]; exact h)
-    exact ⟨a, by simp [tlvData, ha]⟩
-  | mgmt ast addr ins ifn oid =>
-    obtain ⟨h1, h2, h3, h4, h5⟩ := h
-    obtain ⟨a, ha, _⟩ := pk_ok [.uint 1, .uint 1] [.num (addr.length + 1), .num ast] (by simp [fits]; exact ⟨h2, h1⟩)
-    obtain ⟨b, hb, _⟩ := pk_ok [.uint 1, .uint 4, .uint 1] [.num ins, .num ifn, .num oid.length] (by simp [fits]; exact ⟨h3, h4, h5⟩)
-    exact ⟨a ++ addr ++ b ++ oid, by simp [tlvData, ha, hb, bind, Except.bind, pure, Except.pure]⟩
-  | org oui st payload =>
-    obtain ⟨a, ha, _⟩ := pk_ok [.blob 3, .uint 1] [.raw oui, .num st] (by simp [fits]; exact h)
-    exact ⟨a ++ payload, by simp [tlvData, ha, bind, Except.bind, pure, Except.pure]⟩
-  | simple t payload => exact ⟨payload, rfl⟩
+theorem ripParse_spec (raw : Bytes) : Out SpecX raw (ripParse raw) := by
+  unfold ripParse
+  split
+  · exact .inl ⟨_, rfl, rfl, specX_leaf _ rfl⟩
+  · rename_i hlen
+    obtain ⟨x, y, z, hu⟩ := nums3_shape ripL 1 1 2 rfl (raw.take 4) (take_len raw 4 (by omega))
+    simp only [hu]
+    split
+    · exact .inl ⟨_, rfl, rfl, specX_leaf _ rfl⟩
+    · exact .inl ⟨_, rfl, rfl, ext_specX _ _ _ trivial (nil_tiles raw)⟩
 
-theorem tlvPack_ok (t : Tlv) (h : t.Fits) : ∃ b, tlvPack t = .ok b := by
-  obtain ⟨data, hd⟩ := tlvData_ok t h
-  have h1 : data.length % 512 < 2 ^ 9 := by omega
-  have := Tlv.type_lt t h
-  obtain ⟨hb, hhb, _⟩ := pk_ok [.uint 2] [.num ((t.type <<< 9) ||| (data.length % 512))]
-    (by simp [fits]; rw [shl_or _ _ 9 h1]; omega)
-  exact ⟨hb ++ data, by simp only [tlvPack, hd, hhb, bind, Except.bind, pure, Except.pure]⟩
+theorem dns_shape (b : Bytes) (h : b.length = 12) :
+    ∃ a1 a2 a3 a4 a5 a6 a7, unpackE dnsL b = .ok [.num a1, .num a2, .num a3, .num a4, .num a5, .num a6, .num a7] := by
+  obtain ⟨vs, hu, _, hf⟩ := unpackE_total dnsL b (by rw [h]; rfl)
+  simp only [dnsL, fits_uint_iff, fits_nil_iff] at hf
+  obtain ⟨a1, _, rfl, _, a2, _, rfl, _, a3, _, rfl, _, a4, _, rfl, _, a5, _, rfl, _, a6, _, rfl, _, a7, _, rfl, _, rfl⟩ := hf
+  exact ⟨a1, a2, a3, a4, a5, a6, a7, hu⟩
 
-theorem tlvsPack_ok (ts : List Tlv) (h : ∀ t ∈ ts, t.Fits) : ∃ b, tlvsPack ts = .ok b := by
-  induction ts with
-  | nil => exact ⟨[], rfl⟩
-  | cons t r ih =>
-    obtain ⟨a, ha⟩ := tlvPack_ok t (h t (by simp))
-    obtain ⟨b, hb⟩ := ih (fun x hx => h x (by simp [hx]))
-    exact ⟨a ++ b, by simp [tlvsPack, ha, hb, bind, Except.bind, pure, Except.pure]⟩
+theorem dnsParse_spec (raw : Bytes) : Out SpecX raw (dnsParse raw) := by
+  unfold dnsParse
+  split
+  · exact .inl ⟨_, rfl, rfl, specX_leaf _ rfl⟩
+  · rename_i hlen
+    obtain ⟨a1, a2, a3, a4, a5, a6, a7, hu⟩ := dns_shape (raw.take 12) (take_len raw 12 (by omega))
+    simp only [hu]
+    split
+    · exact .inl ⟨_, rfl, rfl, specX_leaf _ rfl⟩
+    · exact .inl ⟨_, rfl, rfl, ext_specX _ _ _ trivial (nil_tiles raw)⟩
 
-/-- at frame level: `pack()` of a parse result without foreign layers is defined -/
-theorem packTop : ∀ (f : Frame), Good f → f.hasForeign = false → ∃ out, packF none f = .ok out := by
-  intro f
-  induction f with
-  | raw b => intro _ _; exact ⟨b, rfl⟩
-  | nil => intro _ _; exact ⟨[], rfl⟩
-  | unparsed c r => intro _ _; exact ⟨r, rfl⟩
-  | foreign c r => intro _ hf; simp [Frame.hasForeign] at hf
-  | udp _ _ _ _ | tcp _ _ _ _ | icmp _ _ _ _ | echo _ _ _ _ | unreach _ _ _ _ | timeEx _ _ _ _ => intro g; simp [Good] at g
-  | eth h r n ih =>
-    intro g hfo
-    obtain ⟨hfit, _, g'⟩ := g
-    obtain ⟨rest, hrest⟩ := ih g' (by simpa [Frame.hasForeign] using hfo)
-    exact ⟨ethBytes h ++ rest, by simp [packF, hrest, ethHdr_ok h hfit, bind, Except.bind, pure, Except.pure]⟩
-  | vlan h r n ih =>
-    intro g hfo
-    obtain ⟨hfit, _, g'⟩ := g
-    obtain ⟨rest, hrest⟩ := ih g' (by simpa [Frame.hasForeign] using hfo)
-    exact ⟨vlanBytes h ++ rest, by simp [packF, hrest, vlanHdr_ok h hfit, bind, Except.bind, pure, Except.pure]⟩
-  | llc h p r n ih =>
-    intro g hfo
-    obtain ⟨g1, g2, g'⟩ := g
-    cases p with
-    | false => exact ⟨r, by simp [packF, pure, Except.pure]⟩
-    | true =>
-      obtain ⟨rest, hrest⟩ := ih g' (by simpa [Frame.hasForeign] using hfo)
-      obtain ⟨hb, hhb⟩ := llcHdr_ok h (g1 rfl).1
-      exact ⟨hb ++ rest, by simp [packF, hrest, hhb, bind, Except.bind, pure, Except.pure]⟩
-  | arp h r n ih =>
-    intro g hfo
-    obtain ⟨hfit, hleaf, _⟩ := g
-    have hrest := pack_leaf n none hleaf (by simpa [Frame.hasForeign] using hfo)
-    obtain ⟨bs, he⟩ := encode_some_of_fits arpL (arpVals h) (arp_fits h hfit)
-    have : arpHdr h = .ok bs := pk_of_encode he
-    exact ⟨bs ++ n.bytes, by simp [packF, hrest, this, bind, Except.bind, pure, Except.pure]⟩
-  | lldp ts p r =>
-    intro g _
-    cases p with
-    | false => exact ⟨r, by simp [packF, pure, Except.pure]⟩
-    | true =>
-      obtain ⟨b, hb⟩ := tlvsPack_ok ts g
-      exact ⟨b, by simp [packF, hb]⟩
-  | ipv4 h r n ih =>
-    intro g hfo
-    obtain ⟨hfit, hip, ⟨hd, cut, h1, h2, h3⟩, g'⟩ := g
-    obtain ⟨rest, hrest, hle⟩ := packIn n true (some ⟨h.src, h.dst, h.proto⟩) g' (by omega)
-      (by simpa [Frame.hasForeign] using hfo) (fun _ => ⟨_, rfl, ⟨hfit.src, hfit.dst, hfit.proto⟩⟩)
-    exact ⟨_, packF_ipv4 none h r n rest hrest hfit (by omega)⟩
+theorem echo6Parse_spec (raw : Bytes) : Out SpecX raw (echo6Parse raw) := by
+  unfold echo6Parse
+  split
+  · exact .inl ⟨_, rfl, rfl, specX_leaf _ rfl⟩
+  · rename_i hlen
+    obtain ⟨x, y, hu, _⟩ := nums2_shape echoL 2 2 rfl (raw.take 4) (take_len raw 4 (by omega))
+    simp only [hu]
+    exact .inl ⟨_, rfl, rfl, ext_specX _ _ _ trivial (drop_tiles raw 4)⟩
 
-/-! ## relation to the total parser of C14 (`Packet.parse`, Model/PacketHdr.lean)
-
-Whenever the exception-aware parser returns, the C14 parser — which turns every would-be exception into "unparsed" — returns
-the same chain (LLC / LLDP objects and foreign layers being what C14 calls `unmodelled`).  Stated for the versions of the code
-with repair C15-4 (committed), the TCP-option bound the C14 model has as well. -/
-
-/-- the nested constructor calls agree -/
-structure Rel (next : K → Bytes → P Frame) (nextC : Kind → Bytes → Pkt) : Prop where
-  same : ∀ k kc b g, k.toKind = some kc → next k b = .ok g → g.toPkt = nextC kc b
-  llc : ∀ b g, next .llc b = .ok g → g.toPkt = .unmodelled "llc" b
-  lldp : ∀ b g, next .lldp b = .ok g → g.toPkt = .unmodelled "lldp" b
-
-theorem parseNext_ref (next : K → Bytes → P Frame) (nextC : Kind → Bytes → Pkt) (hr : Rel next nextC) (t : Nat) (rest : Bytes)
-    (allow : Bool) (g : Frame) (h : parseNext next t rest allow = .ok g) : g.toPkt = Packet.parseNext nextC t rest allow := by
-  unfold parseNext at h
-  unfold Packet.parseNext
-  by_cases c1 : t = 0x8100
-  · rw [if_pos c1] at h ⊢; exact hr.same _ _ _ _ rfl h
-  rw [if_neg c1] at h ⊢
-  by_cases c2 : t = 0x0806 ∨ t = 0x8035
-  · rw [if_pos c2] at h ⊢; exact hr.same _ _ _ _ rfl h
-  rw [if_neg c2] at h ⊢
-  by_cases c3 : t = 0x0800
-  · rw [if_pos c3] at h ⊢; exact hr.same _ _ _ _ rfl h
-  rw [if_neg c3] at h ⊢
-  by_cases c4 : t = 0x86dd
-  · rw [if_pos c4] at h ⊢; simp [pure, Except.pure] at h; subst h; rfl
-  rw [if_neg c4] at h ⊢
-  by_cases c5 : t = 0x88cc
-  · rw [if_pos c5] at h ⊢; exact hr.lldp _ _ h
-  rw [if_neg c5] at h ⊢
-  by_cases c6 : t = 0x888e
-  · rw [if_pos c6] at h ⊢; simp [pure, Except.pure] at h; subst h; rfl
-  rw [if_neg c6] at h ⊢
-  by_cases c7 : t = 0x8847 ∨ t = 0x8848
-  · rw [if_pos c7] at h ⊢; simp [pure, Except.pure] at h; subst h; rfl
-  rw [if_neg c7] at h ⊢
-  by_cases c8 : t < 1536 ∧ allow = true
-  · rw [if_pos c8] at h ⊢; exact hr.llc _ _ h
-  rw [if_neg c8] at h ⊢
-  simp [pure, Except.pure] at h; subst h; rfl
-
-theorem ethParse_ref (next : K → Bytes → P Frame) (nextC : Kind → Bytes → Pkt) (hr : Rel next nextC) (raw : Bytes) (f : Frame)
-    (h : ethParse next raw = .ok f) : f.toPkt = Packet.ethParse nextC raw := by
-  unfold ethParse at h
-  unfold Packet.ethParse
-  by_cases c : raw.length < 14
-  · rw [if_pos c] at h ⊢; simp [pure, Except.pure] at h; subst h; rfl
-  rw [if_neg c] at h ⊢
-  obtain ⟨dst, src, t, hu, hu', _⟩ := eth_shape (raw.take 14) (take_len raw 14 (by omega))
-  simp only [hu] at h
-  simp only [hu']
-  cases hn : parseNext next t (raw.drop 14) with
-  | error e => simp [hn] at h
-  | ok n =>
-    simp [hn, pure, Except.pure] at h
-    subst h
-    simp [Frame.toPkt, parseNext_ref next nextC hr _ _ _ _ hn]
-
-theorem vlanParse_ref (next : K → Bytes → P Frame) (nextC : Kind → Bytes → Pkt) (hr : Rel next nextC) (raw : Bytes) (f : Frame)
-    (h : vlanParse next raw = .ok f) : f.toPkt = Packet.vlanParse nextC raw := by
-  unfold vlanParse at h
-  unfold Packet.vlanParse
-  by_cases c : raw.length < 4
-  · rw [if_pos c] at h ⊢; simp [pure, Except.pure] at h; subst h; rfl
-  rw [if_neg c] at h ⊢
-  obtain ⟨x, y, hu, hu', _⟩ := nums2_shape vlanL 2 2 rfl (raw.take 4) (take_len raw 4 (by omega))
-  simp only [hu] at h
-  simp only [hu']
-  cases hn : parseNext next y (raw.drop 4) with
-  | error e => simp [hn] at h
-  | ok n =>
-    simp [hn, pure, Except.pure] at h
-    subst h
-    simp [Frame.toPkt, parseNext_ref next nextC hr _ _ _ _ hn]
-
-theorem arpParse_ref (raw : Bytes) (f : Frame) (h : arpParse raw = .ok f) : f.toPkt = Packet.arpParse raw := by
-  unfold arpParse at h
-  unfold Packet.arpParse
-  by_cases c : raw.length < 28
-  · rw [if_pos c] at h ⊢; simp [pure, Except.pure] at h; subst h; rfl
-  rw [if_neg c] at h ⊢
-  obtain ⟨a1, a2, a3, a4, a5, a6, a7, a8, a9, hu, hu', _⟩ := arp_shape (raw.take 28) (take_len raw 28 (by omega))
-  simp only [hu] at h
-  simp only [hu']
-  repeat' split at h
-  all_goals (simp [pure, Except.pure] at h; subst h; simp_all [Frame.toPkt])
-
-theorem echoParse_ref (raw : Bytes) (f : Frame) (h : echoParse raw = .ok f) : f.toPkt = Packet.echoParse raw := by
-  unfold echoParse at h
-  unfold Packet.echoParse
-  by_cases c : raw.length < 4
-  · rw [if_pos c] at h ⊢; simp [pure, Except.pure] at h; subst h; rfl
-  rw [if_neg c] at h ⊢
-  obtain ⟨x, y, hu, hu', _⟩ := nums2_shape echoL 2 2 rfl (raw.take 4) (take_len raw 4 (by omega))
-  simp only [hu] at h
-  simp only [hu']
-  simp [pure, Except.pure] at h; subst h; rfl
-
-theorem udpParse_ref (raw : Bytes) (f : Frame) (h : udpParse raw = .ok f) : f.toPkt = Packet.udpParse raw := by
-  unfold udpParse at h
-  unfold Packet.udpParse
-  dsimp only at h ⊢
-  by_cases c : raw.length < 8
-  · rw [if_pos c] at h ⊢; simp [pure, Except.pure] at h; subst h; rfl
-  rw [if_neg c] at h ⊢
-  obtain ⟨sp, dp, l, cs, hu, hu', _⟩ := udp_shape (raw.take 8) (take_len raw 8 (by omega))
-  simp only [hu] at h
-  simp only [hu']
-  by_cases c1 : l < 8
-  · rw [if_pos c1] at h ⊢; simp [pure, Except.pure] at h; subst h; rfl
-  rw [if_neg c1] at h ⊢
-  by_cases c2 : dp = 67 ∨ dp = 68
-  · rw [if_pos c2] at h ⊢; simp [pure, Except.pure] at h; subst h; rfl
-  rw [if_neg c2] at h ⊢
-  by_cases c3 : dp = 53 ∨ sp = 53
-  · rw [if_pos c3] at h ⊢; simp [pure, Except.pure] at h; subst h; rfl
-  rw [if_neg c3] at h ⊢
-  by_cases c4 : dp = 5353 ∨ sp = 5353
-  · rw [if_pos c4] at h ⊢; simp [pure, Except.pure] at h; subst h; rfl
-  rw [if_neg c4] at h ⊢
-  by_cases c5 : dp = 520 ∨ sp = 520
-  · rw [if_pos c5] at h ⊢; simp [pure, Except.pure] at h; subst h; rfl
-  rw [if_neg c5] at h ⊢
-  by_cases c6 : dp = 4789 ∨ sp = 4789
-  · rw [if_pos c6] at h ⊢; simp [pure, Except.pure] at h; subst h; rfl
-  rw [if_neg c6] at h ⊢
-  by_cases c7 : raw.length < l
-  · rw [if_pos c7] at h ⊢; simp [pure, Except.pure] at h; subst h; rfl
-  · rw [if_neg c7] at h ⊢; simp [pure, Except.pure] at h; subst h; rfl
-
-theorem quoteDispatch_ref (next : K → Bytes → P Frame) (nextC : Kind → Bytes → Pkt) (hr : Rel next nextC) (raw : Bytes) (g : Frame)
-    (h : quoteDispatch next raw = .ok g) : g.toPkt = Packet.quoteDispatch nextC raw := by
-  unfold quoteDispatch at h
-  unfold Packet.quoteDispatch
-  by_cases c : raw.length ≥ 28
-  · rw [if_pos c] at h ⊢; exact hr.same _ _ _ _ rfl h
-  · rw [if_neg c] at h ⊢; simp [pure, Except.pure] at h; subst h; rfl
-
-theorem unreachParse_ref (next : K → Bytes → P Frame) (nextC : Kind → Bytes → Pkt) (hr : Rel next nextC) (raw : Bytes) (f : Frame)
-    (h : unreachParse next raw = .ok f) : f.toPkt = Packet.unreachParse nextC raw := by
-  unfold unreachParse at h
-  unfold Packet.unreachParse
-  by_cases c : raw.length < 4
-  · rw [if_pos c] at h ⊢; simp [pure, Except.pure] at h; subst h; rfl
-  rw [if_neg c] at h ⊢
-  obtain ⟨x, y, hu, hu', _⟩ := nums2_shape unreachL 2 2 rfl (raw.take 4) (take_len raw 4 (by omega))
-  simp only [hu] at h
-  simp only [hu']
-  cases hn : quoteDispatch next raw with
-  | error e => simp [hn] at h
-  | ok n =>
-    simp [hn, pure, Except.pure] at h
-    subst h
-    simp [Frame.toPkt, quoteDispatch_ref next nextC hr _ _ hn]
-
-theorem timeExParse_ref (next : K → Bytes → P Frame) (nextC : Kind → Bytes → Pkt) (hr : Rel next nextC) (raw : Bytes) (f : Frame)
-    (h : timeExParse next raw = .ok f) : f.toPkt = Packet.timeExParse nextC raw := by
-  unfold timeExParse at h
-  unfold Packet.timeExParse
-  by_cases c : raw.length < 4
-  · rw [if_pos c] at h ⊢; simp [pure, Except.pure] at h; subst h; rfl
-  rw [if_neg c] at h ⊢
-  obtain ⟨x, hu, hu', _⟩ := num1_shape 4 (raw.take 4) (take_len raw 4 (by omega))
-  have hu1 : unpackE timeExL (raw.take 4) = .ok [.num x] := hu
-  have hu2 : unpack timeExL (raw.take 4) = some [.num x] := hu'
-  simp only [hu1] at h
-  simp only [hu2]
-  cases hn : quoteDispatch next raw with
-  | error e => simp [hn] at h
-  | ok n =>
-    simp [hn, pure, Except.pure] at h
-    subst h
-    simp [Frame.toPkt, quoteDispatch_ref next nextC hr _ _ hn]
-
-theorem icmpParse_ref (next : K → Bytes → P Frame) (nextC : Kind → Bytes → Pkt) (hr : Rel next nextC) (raw : Bytes) (f : Frame)
-    (h : icmpParse next raw = .ok f) : f.toPkt = Packet.icmpParse nextC raw := by
-  unfold icmpParse at h
-  unfold Packet.icmpParse Packet.icmpDispatch
-  by_cases c : raw.length < 4
-  · rw [if_pos c] at h ⊢; simp [pure, Except.pure] at h; subst h; rfl
-  rw [if_neg c] at h ⊢
-  obtain ⟨t, cd, s, hu, hu', _⟩ := icmp_shape (raw.take 4) (take_len raw 4 (by omega))
-  simp only [hu] at h
-  simp only [hu']
-  by_cases c1 : t = 8 ∨ t = 0
-  · rw [if_pos c1] at h ⊢
-    cases hn : next .echo (raw.drop 4) with
-    | error e => simp [hn] at h
-    | ok n => simp [hn, pure, Except.pure] at h; subst h; simp [Frame.toPkt, hr.same _ _ _ _ rfl hn]
-  rw [if_neg c1] at h ⊢
-  by_cases c2 : t = 3
-  · rw [if_pos c2] at h ⊢
-    cases hn : next .unreach (raw.drop 4) with
-    | error e => simp [hn] at h
-    | ok n => simp [hn, pure, Except.pure] at h; subst h; simp [Frame.toPkt, hr.same _ _ _ _ rfl hn]
-  rw [if_neg c2] at h ⊢
-  by_cases c3 : t = 11
-  · rw [if_pos c3] at h ⊢
-    cases hn : next .timeEx (raw.drop 4) with
-    | error e => simp [hn] at h
-    | ok n => simp [hn, pure, Except.pure] at h; subst h; simp [Frame.toPkt, hr.same _ _ _ _ rfl hn]
-  rw [if_neg c3] at h ⊢
-  simp [pure, Except.pure] at h; subst h; rfl
-
-theorem isUnparsed_toPkt (g : Frame) : Packet.isUnparsed g.toPkt = isUnparsed g := by
-  cases g with
-  | udp h r n => cases n <;> rfl
-  | _ => rfl
-
-theorem ipv4Dispatch_ref (next : K → Bytes → P Frame) (nextC : Kind → Bytes → Pkt) (hr : Rel next nextC) (frag proto : Nat)
-    (body : Bytes) (short : Bool) (g : Frame) (h : ipv4Dispatch next frag proto body short = .ok g) :
-    g.toPkt = Packet.ipv4Dispatch nextC frag proto body short := by
-  unfold ipv4Dispatch at h
-  unfold Packet.ipv4Dispatch
-  by_cases c0 : frag ≠ 0
-  · rw [if_pos c0] at h; simp [pure, Except.pure] at h; subst h; simp [c0, Frame.toPkt, Packet.isUnparsed]
-  rw [if_neg c0] at h
-  simp only [c0, if_false]
-  have fin : ∀ (k : K) (kc : Kind) (nx : Frame), k.toKind = some kc → next k body = .ok nx →
-      (if isUnparsed nx = true then Frame.raw body else nx).toPkt
-        = if Packet.isUnparsed (nextC kc body) = true then Pkt.raw body else nextC kc body := by
-    intro k kc nx hk hn
-    have e := hr.same _ _ _ _ hk hn
-    rw [← e, isUnparsed_toPkt]
-    by_cases hu : isUnparsed nx = true <;> simp [hu, Frame.toPkt]
-  by_cases c17 : proto = 17
-  · subst c17
-    cases hn : next .udp body with
-    | error e => simp [hn] at h
-    | ok nx => simp [hn, pure, Except.pure] at h; subst h; simpa using fin .udp .udp nx rfl hn
-  by_cases c6 : proto = 6
-  · subst c6
-    cases hn : next .tcp body with
-    | error e => simp [hn] at h
-    | ok nx => simp [hn, pure, Except.pure] at h; subst h; simpa using fin .tcp .tcp nx rfl hn
-  by_cases c1 : proto = 1
-  · subst c1
-    cases hn : next .icmp body with
-    | error e => simp [hn] at h
-    | ok nx => simp [hn, pure, Except.pure] at h; subst h; simpa using fin .icmp .icmp nx rfl hn
-  have hno : ¬ (proto = 17 ∨ proto = 6 ∨ proto = 1) := by omega
-  rw [if_neg hno] at h
-  simp only [c17, c6, c1, if_false]
-  by_cases c2 : proto = 2
-  · rw [if_pos c2] at h ⊢; simp [pure, Except.pure] at h; subst h; simp [Frame.toPkt, Packet.isUnparsed]
-  rw [if_neg c2] at h ⊢
-  by_cases c47 : proto = 47
-  · rw [if_pos c47] at h ⊢; simp [pure, Except.pure] at h; subst h; simp [Frame.toPkt, Packet.isUnparsed]
-  rw [if_neg c47] at h ⊢
-  by_cases cs : short = true
-  · rw [if_pos cs] at h ⊢; simp [pure, Except.pure] at h; subst h; simp [Frame.toPkt, Packet.isUnparsed]
-  · rw [if_neg cs] at h ⊢; simp [pure, Except.pure] at h; subst h; simp [Frame.toPkt, Packet.isUnparsed]
-
-theorem ipv4Parse_ref (next : K → Bytes → P Frame) (nextC : Kind → Bytes → Pkt) (hr : Rel next nextC) (raw : Bytes) (f : Frame)
-    (h : ipv4Parse next raw = .ok f) : f.toPkt = Packet.ipv4Parse nextC raw := by
-  unfold ipv4Parse at h
-  unfold Packet.ipv4Parse
-  dsimp only at h ⊢
-  by_cases c : raw.length < 20
-  · rw [if_pos c] at h ⊢; simp [pure, Except.pure] at h; subst h; rfl
-  rw [if_neg c] at h ⊢
-  obtain ⟨vhl, tos, iplen, id, ff, ttl, proto, csum, src, dst, hu, hu', _⟩ :=
-    ipv4_shape (raw.take 20) (take_len raw 20 (by omega))
-  simp only [hu] at h
-  simp only [hu']
-  by_cases c1 : vhl / 16 ≠ 4
-  · rw [if_pos c1] at h ⊢; simp [pure, Except.pure] at h; subst h; rfl
-  rw [if_neg c1] at h ⊢
-  by_cases c2 : vhl % 16 < 5
-  · rw [if_pos c2] at h ⊢; simp [pure, Except.pure] at h; subst h; rfl
-  rw [if_neg c2] at h ⊢
-  by_cases c3 : iplen < 20
-  · rw [if_pos c3] at h ⊢; simp [pure, Except.pure] at h; subst h; rfl
-  rw [if_neg c3] at h ⊢
-  by_cases c4 : vhl % 16 * 4 > iplen
-  · rw [if_pos c4] at h ⊢; simp [pure, Except.pure] at h; subst h; rfl
-  rw [if_neg c4] at h ⊢
-  by_cases c5 : vhl % 16 * 4 > raw.length
-  · rw [if_pos c5] at h ⊢; simp [pure, Except.pure] at h; subst h; rfl
-  rw [if_neg c5] at h ⊢
-  cases hn : ipv4Dispatch next (ff % 8192) proto (sl raw (vhl % 16 * 4) (if iplen > raw.length then raw.length else iplen))
-      (decide (raw.length < iplen)) with
-  | error e => simp [hn] at h
-  | ok n =>
-    simp [hn, pure, Except.pure] at h
-    subst h
-    simp [Frame.toPkt, ipv4Dispatch_ref next nextC hr _ _ _ _ _ hn]
-
-theorem tcpParseOptsB_hdr (arr : Bytes) (hdrLen : Nat) : ∀ (fuel i : Nat),
-    tcpParseOptsB fuel arr hdrLen hdrLen i = tcpParseOpts fuel arr hdrLen i := by
-  intro fuel
-  induction fuel with
-  | zero => intro i; rfl
-  | succ fuel ih =>
-    intro i
-    have ih' : (fun j => tcpParseOptsB fuel arr hdrLen hdrLen j) = fun j => tcpParseOpts fuel arr hdrLen j := funext ih
-    simp only [tcpParseOptsB, tcpParseOpts]
-    by_cases c : i < hdrLen
-    · simp only [if_pos c]
-      cases getU8 arr i with
-      | none => rfl
-      | some t =>
-        dsimp only
-        by_cases t0 : t = 0
-        · simp only [if_pos t0]
-        simp only [if_neg t0]
-        by_cases t1 : t = 1
-        · simp only [if_pos t1, ih]
-        simp only [if_neg t1]
-        by_cases c2 : i + 2 > arr.length
-        · simp only [if_pos c2]
-        simp only [if_neg c2]
-        cases getU8 arr (i + 1) with
-        | none => rfl
-        | some length =>
-          dsimp only
-          by_cases c3 : i + length > hdrLen
-          · simp only [if_pos c3]
-          simp only [if_neg c3]
-          by_cases c4 : length < 2
-          · simp only [if_pos c4]
-          simp only [if_neg c4]
-          by_cases c5 : t = 30
-          · simp only [if_pos c5]
-          simp only [if_neg c5]
-          cases tcpOptUnpack arr i t length with
-          | none => rfl
-          | some p => obtain ⟨i', o⟩ := p; simp only [ih]
-    · simp only [if_neg c]
-
-theorem tcpParse_ref (cfg : Cfg) (hc : cfg.tcpOptBound = true) (raw : Bytes) (f : Frame) (h : tcpParse cfg raw = .ok f) :
-    f.toPkt = Packet.tcpParse raw := by
-  unfold tcpParse at h
-  unfold Packet.tcpParse
-  dsimp only at h ⊢
-  by_cases c : raw.length < 20
-  · rw [if_pos c] at h ⊢; simp [pure, Except.pure] at h; subst h; rfl
-  rw [if_neg c] at h ⊢
-  obtain ⟨sp, dp, seq, ack, offres, flags, win, csum, urg, hu, hu', _⟩ := tcp_shape (raw.take 20) (take_len raw 20 (by omega))
-  simp only [hu] at h
-  simp only [hu']
-  by_cases c1 : offres / 16 * 4 < 20 ∨ offres / 16 * 4 > raw.length
-  · rw [if_pos c1] at h ⊢; simp [pure, Except.pure] at h; subst h; rfl
-  rw [if_neg c1] at h ⊢
-  simp only [hc, if_true, tcpParseOptsB_hdr] at h
-  cases hr : tcpParseOpts (offres / 16 * 4) raw (offres / 16 * 4) 20 with
-  | fail => simp [hr, pure, Except.pure] at h; subst h; rfl
-  | mptcp => simp [hr, pure, Except.pure] at h; subst h; rfl
-  | ok os => simp [hr, pure, Except.pure] at h; subst h; rfl
-
-theorem llcTail_shape (next : K → Bytes → P Frame) (raw : Bytes) (d s c len : Nat) (g : Frame)
-    (h : llcTail next raw d s c len = .ok g) : g.toPkt = .unmodelled "llc" raw := by
-  unfold llcTail at h
-  dsimp only at h
-  repeat' split at h
-  all_goals first
-    | (simp [pure, Except.pure] at h; subst h; rfl)
-    | simp at h
-
-theorem llcParse_shape (next : K → Bytes → P Frame) (raw : Bytes) (g : Frame) (h : llcParse next raw = .ok g) :
-    g.toPkt = .unmodelled "llc" raw := by
-  unfold llcParse at h
-  repeat' split at h
-  all_goals first
-    | (simp [pure, Except.pure] at h; subst h; rfl)
-    | exact llcTail_shape _ _ _ _ _ _ _ h
-    | simp at h
-
-theorem lldpParse_shape (cfg : Cfg) (raw : Bytes) (g : Frame) (h : lldpParse cfg raw = .ok g) :
-    g.toPkt = .unmodelled "lldp" raw := by
-  unfold lldpParse at h
-  repeat' split at h
-  all_goals first
-    | (simp [pure, Except.pure] at h; subst h; rfl)
-    | simp at h
-
-/-- the exception-aware parser refines the total parser of C14 -/
-theorem parseD_ref (cfg : Cfg) (hc : cfg.tcpOptBound = true) : ∀ (d : Nat),
-    Rel (parseD cfg d) (Packet.parse d) := by
-  intro d
-  induction d with
-  | zero =>
-    exact ⟨fun k kc b g _ h => by simp [parseD] at h, fun b g h => by simp [parseD] at h, fun b g h => by simp [parseD] at h⟩
-  | succ d ih =>
-    refine ⟨?_, ?_, ?_⟩
-    · intro k kc b g hk h
-      cases k <;> simp [K.toKind] at hk <;> subst hk <;> simp only [parseD] at h <;> simp only [Packet.parse]
-      · exact ethParse_ref _ _ ih _ _ h
-      · exact vlanParse_ref _ _ ih _ _ h
-      · exact arpParse_ref _ _ h
-      · exact ipv4Parse_ref _ _ ih _ _ h
-      · exact udpParse_ref _ _ h
-      · exact tcpParse_ref cfg hc _ _ h
-      · exact icmpParse_ref _ _ ih _ _ h
-      · exact echoParse_ref _ _ h
-      · exact unreachParse_ref _ _ ih _ _ h
-      · exact timeExParse_ref _ _ ih _ _ h
-    · intro b g h; simp only [parseD] at h; exact llcParse_shape _ _ _ h
-    · intro b g h; simp only [parseD] at h; exact lldpParse_shape _ _ _ h
-
-/-! ## nesting is bounded only by the frame length -/
-
-/-- `n` 802.1Q tags, each announcing another tag (TCI 0x0001, inner type 0x8100) -/
-def vtags : Nat → Bytes
-  | 0 => []
-  | n+1 => [0x00, 0x01, 0x81, 0x00] ++ vtags n
-
-/-- an Ethernet header of type 0x8100 followed by `n` such tags: 14 + 4·n bytes -/
-def nestFrame (n : Nat) : Bytes := List.replicate 12 0 ++ [0x81, 0x00] ++ vtags n
-
-theorem vtags_length (n : Nat) : (vtags n).length = 4 * n := by
-  induction n with
-  | zero => rfl
-  | succ n ih => simp [vtags, ih]; omega
-
-theorem nestFrame_length (n : Nat) : (nestFrame n).length = 14 + 4 * n := by
-  simp [nestFrame, vtags_length]; omega
-
-theorem vlan_nest (cfg : Cfg) : ∀ (m n : Nat), m ≤ n → parseD cfg m .vlan (vtags n) = .error .recursion := by
-  intro m
-  induction m with
-  | zero => intro n _; rfl
-  | succ m ih =>
-    intro n hn
-    cases n with
-    | zero => omega
-    | succ n =>
-      have hlen : ¬ (vtags (n + 1)).length < 4 := by rw [vtags_length]; omega
-      have hu : unpackE vlanL ((vtags (n + 1)).take 4) = .ok [.num 1, .num 0x8100] := by
-        simp only [vtags, List.cons_append, List.nil_append, List.take_succ_cons, List.take_zero]; rfl
-      have hd : (vtags (n + 1)).drop 4 = vtags n := by simp [vtags]
-      simp only [parseD, vlanParse, if_neg hlen, hu, hd, parseNext, if_true, ih n (by omega)]
-
-theorem eth_nest (cfg : Cfg) (d : Nat) : parseD cfg d .eth (nestFrame d) = .error .recursion := by
-  cases d with
-  | zero => rfl
-  | succ m =>
-    have hlen : ¬ (nestFrame (m + 1)).length < 14 := by rw [nestFrame_length]; omega
-    have hu : unpackE ethL ((nestFrame (m + 1)).take 14) = .ok [.raw (List.replicate 6 0), .raw (List.replicate 6 0), .num 0x8100] := by
-      simp only [nestFrame, List.replicate, List.cons_append, List.nil_append, List.take_succ_cons, List.take_zero]; rfl
-    have hd : (nestFrame (m + 1)).drop 14 = vtags (m + 1) := by simp [nestFrame, List.replicate]
-    simp only [parseD, ethParse, if_neg hlen, hu, hd, parseNext, if_true, vlan_nest cfg m (m + 1) (by omega)]
+theorem unreach6Parse_spec (next : K → Bytes → P Frame) (raw : Bytes) (hn : NextSpec next raw.length) :
+    Out SpecX raw (unreach6Parse next raw) := by
+  unfold unreach6Parse
+  split
+  · exact .inl ⟨_, rfl, rfl, specX_leaf _ rfl⟩
+  · rename_i hlen
+    obtain ⟨x, hu, _, _⟩ := num1_shape 4 (raw.take 4) (take_len raw 4 (by omega))
+    have hu' : unpackE u32L (raw.take 4) = .ok [.num x] := hu
+    simp only [hu']
+    split
+    · rcases hn .ipv6 (raw.drop 4) (by simp [List.length_drop]; omega) with ⟨f, hf, hb, hg⟩ | ⟨e, he⟩
+      · simp only [hf]
+        exact .inl ⟨_, rfl, rfl, ext_specX _ _ _ hg.1 (by rw [hb]; exact drop_tiles raw 4)⟩
+      · simp only [he]; exact .inr ⟨e, rfl⟩
+    · exact .inl ⟨_, rfl, rfl, ext_specX _ _ _ trivial (drop_tiles raw 4)⟩
 end Pox.Parse
